@@ -2,14 +2,25 @@
 value-level and not decided).  Shadow-pointer typestate (data is home before an in-place sorter sees
 it), disposal of every bucket exactly once at the right offset, depth bookkeeping of the explicit radix
 stacks, bucket ranges, step constructors (bucket 0 final, count/distribute agreement, prefix-sum use),
-fall-back chain, key packing, LCP slot 0 ownership, twin bodies of the LCP insertion sort, public entry
-points."""
+fall-back chain, key packing, LCP slot 0 ownership, public entry points.
+
+Verdict policy of this file: a violation is only reported on positive evidence, i.e. a value computed by an
+evaluation over constructs that are completely understood (the linear form of an offset, a path of the bucket
+dispatch whose every operation on the radix step is classified, a row of the key-packing table, a concrete
+index reached on a CFG path).  A shape that is not recognised raises dtable.Undecidable (exit 2), it is never
+reported as a violation; absence of an effect is only concluded in a closed world (every operation that touches
+the state on that path is recognised)."""
 from engine import ir, dtable, match, cfg as cfgm
 from engine.ir import kids, walk, strip_casts, const_int, ref_of
+from engine.dtable import Undecidable
 
 NS = "tlx::sort_strings_detail::"
 INPLACE_NAMES = ("insertion_sort", "multikey_quicksort")
 SHADOW_OPS = ("flip", "shadow", "copy_back", "flipped")
+# member functions of the string pointer classes that neither move strings between the arrays nor change the range
+PTR_PURE = ("active", "size", "set_lcp", "get_lcp", "lcp", "fill_lcp", "with_lcp", "shadow", "flipped", "begin", "end")
+STACK_PURE = ("top", "size", "empty")
+INF = float("inf")
 
 
 def is_shadow_type(ty):
@@ -30,6 +41,95 @@ def where(fn, extra=""):
     return "%s [%s]%s" % (fn.name, label(fn), (" " + extra) if extra else "")
 
 
+def und(fn, node, what):
+    """the construct is not understood: cannot decide (never a violation)"""
+    loc = fn.nloc(node) if (node is not None and node.get("l")) else fn.loc
+    raise Undecidable("%s: %s: %s" % (loc, fn.name, what))
+
+
+def postorder(n):
+    """the nodes of an expression, operands before their operator, left to right"""
+    if n is None:
+        return
+    for c in kids(n):
+        yield from postorder(c)
+    yield n
+
+
+def is_size_t(ty):
+    ty = (ty or "").replace("const ", "").replace("&", "").strip()
+    return ty in ("unsigned long", "size_t", "std::size_t", "unsigned long long")
+
+
+def role_index(params, role, ctor=False):
+    """position of the parameter that plays the given role: by its name, else by its position among the size_t parameters
+    ((depth, memory) for functions, ([base,] depth) for step constructors)"""
+    names = [p["name"] for p in params]
+    if role in names:
+        return names.index(role)
+    ints = [i for i, p in enumerate(params) if is_size_t(p["ty"])]
+    if ctor:
+        order = {2: ("base", "depth"), 1: ("depth",)}.get(len(ints), ())
+    else:
+        order = {2: ("depth", "memory")}.get(len(ints), ())
+    for r, i in zip(order, ints):
+        if names[i] in ("depth", "memory", "base") and names[i] != r:
+            return None         # a parameter that carries the name of another role: no guessing
+    return ints[order.index(role)] if role in order else None
+
+
+# ------------------------------------------------------------------ locals that only name a value
+def _fn_index(fn):
+    c = getattr(fn, "_c03_index", None)
+    if c is None:
+        decls, writes = {}, {}
+        for z in fn.nodes():
+            if z["k"] == "VarDecl" and z.get("did") is not None:
+                decls[z["did"]] = z
+            tgt = None
+            if z["k"] in ("BinaryOperator", "CompoundAssignOperator", "CXXOperatorCallExpr"):
+                b = match.binop(z)
+                if b and b[0].endswith("=") and b[0] not in ("==", "!=", "<=", ">="):
+                    tgt = ref_of(b[1])
+            u = match.unop(z, ("++", "--"))
+            if u:
+                tgt = ref_of(u[1])
+            if z["k"] == "UnaryOperator" and z.get("op") == "&":
+                tgt = ref_of(kids(z)[0])
+            if tgt is not None:
+                writes.setdefault(tgt, []).append(z)
+        c = fn._c03_index = (decls, writes)
+    return c
+
+
+def decl_of(fn, did):
+    return _fn_index(fn)[0].get(did)
+
+
+def writes_of(fn, did):
+    return _fn_index(fn)[1].get(did, [])
+
+
+def transparent_init(fn, did):
+    """the initialiser of a local that is initialised once and never written afterwards (it only names that value)"""
+    d = decl_of(fn, did)
+    if d is None or not kids(d) or kids(d)[0] is None or writes_of(fn, did):
+        return None
+    return kids(d)[0]
+
+
+def resolve(fn, e, depth=0):
+    """e, looking through casts and through locals that only name a value"""
+    e = strip_casts(e)
+    while e is not None and e["k"] == "DeclRefExpr" and depth < 8:
+        init = transparent_init(fn, e["ref"]["id"])
+        if init is None:
+            break
+        e = strip_casts(init)
+        depth += 1
+    return e
+
+
 # ------------------------------------------------------------------ linear forms
 def lin_add(a, b, f=1):
     out = dict(a)
@@ -40,54 +140,8 @@ def lin_add(a, b, f=1):
     return out
 
 
-class Lin:
-    """linear forms over symbols: 'depth', 'size' (radixstack.size()), 'b' (bucket size), 'pos0', ..."""
-
-    def __init__(self, fn, sym_of_decl, pos):
-        self.fn = fn
-        self.sym = sym_of_decl     # decl id -> symbol
-        self.pos = pos             # current linear value of rs.pos
-        self.bound = {}            # locals of the explored path: value at their declaration
-
-    def ev(self, e):
-        e = strip_casts(e)
-        c = const_int(e)
-        if c is not None:
-            return {1: c} if c else {}
-        k = e["k"]
-        if k == "ParenExpr":
-            return self.ev(kids(e)[0])
-        if k == "DeclRefExpr":
-            s = self.sym.get(e["ref"]["id"])
-            if s:
-                return {s: 1}
-            if e["ref"]["id"] in self.bound:
-                return self.bound[e["ref"]["id"]]
-            # a local helper variable: its initialiser (hoisted sub-expression)
-            for n in walk(self.fn.body):
-                if n["k"] == "VarDecl" and n.get("did") == e["ref"]["id"] and kids(n) and kids(n)[0] is not None:
-                    return self.ev(kids(n)[0])
-            return None
-        if k == "MemberExpr" and e.get("member") == "pos":
-            return dict(self.pos)
-        if "callee" in e and e["callee"]["name"] == "size" and e.get("member_call") and ref_of(kids(e)[0]) is not None \
-                and self.sym.get(ref_of(kids(e)[0])) == "stack":
-            return {"size": 1}
-        if k == "BinaryOperator" and e.get("op") in ("+", "-"):
-            a, b = self.ev(kids(e)[0]), self.ev(kids(e)[1])
-            if a is None or b is None:
-                return None
-            return lin_add(a, b, 1 if e["op"] == "+" else -1)
-        if k == "BinaryOperator" and e.get("op") == "*":
-            a, b = self.ev(kids(e)[0]), self.ev(kids(e)[1])
-            if a is None or b is None:
-                return None
-            for x, y in ((a, b), (b, a)):
-                if set(x.keys()) <= {1}:
-                    c = x.get(1, 0)
-                    return {s: v * c for s, v in y.items() if v * c}
-            return None
-        return None
+def lin_scale(a, c):
+    return {k: v * c for k, v in a.items() if v * c}
 
 
 def fmt_lin(l):
@@ -100,6 +154,223 @@ def fmt_lin(l):
         else:
             parts.append(("%s" % k) if v == 1 else "%d*%s" % (v, k))
     return " + ".join(parts) if parts else "0"
+
+
+def lin_mul(a, b):
+    if a is None or b is None:
+        return None
+    for x, y in ((a, b), (b, a)):
+        if set(x.keys()) <= {1}:
+            return lin_scale(y, x.get(1, 0))
+    return None
+
+
+def canon_cmp(op, a, b):
+    """`a op b` over integer linear forms as (kind, lin, negated): kind 'lt' means lin < 0, 'eq' means lin == 0; the leading
+    coefficient of lin is positive, so that x < 5, !(x >= 5), 5 > x, x <= 4 are one atom.  A bool if no symbol is left."""
+    if op in ("<", ">="):
+        kind, l, neg = "lt", lin_add(a, b, -1), op == ">="
+    elif op in (">", "<="):
+        kind, l, neg = "lt", lin_add(b, a, -1), op == "<="
+    elif op in ("==", "!="):
+        kind, l, neg = "eq", lin_add(a, b, -1), op == "!="
+    else:
+        return None
+    syms = sorted((k for k in l if k != 1), key=str)
+    if not syms:
+        c = l.get(1, 0)
+        t = (c < 0) if kind == "lt" else (c == 0)
+        return (not t) if neg else t
+    if l[syms[0]] < 0:
+        if kind == "eq":
+            l = lin_scale(l, -1)
+        else:                   # lin < 0  <=>  !(-lin - 1 < 0)
+            l = lin_add(lin_scale(l, -1), {1: 1}, -1)
+            neg = not neg
+    return kind, l, neg
+
+
+def atom_text(kind, l):
+    c = l.get(1, 0)
+    rest = {k: v for k, v in l.items() if k != 1}
+    return "%s %s %d" % (fmt_lin(rest), "<" if kind == "lt" else "==", -c)
+
+
+def sym_interval(val, atoms, sym, counts_up=False):
+    """[lo, hi] of the unsigned symbol implied by the decided atoms that talk about this symbol alone; None if they contradict.
+    counts_up: the symbol counts up from 0 in steps of one and the path is left at the first failing test, so x != c bounds it"""
+    lo, hi = 0, INF
+    cons = []
+    for key, v in val.items():
+        info = atoms.get(key)
+        if info and set(info[1]) - {1} == {sym}:
+            cons.append((info[0], info[1][sym], info[1].get(1, 0), v))
+    for kind, k, c, v in cons:
+        t = -((c) // k)         # ceil(-c / k)
+        if kind == "lt":
+            if v:
+                hi = min(hi, t - 1)
+            else:
+                lo = max(lo, t)
+    for kind, k, c, v in cons:
+        if kind != "eq":
+            continue
+        exact = (-c) % k == 0
+        t = (-c) // k
+        if v:
+            if not exact:
+                return None
+            lo, hi = max(lo, t), min(hi, t)
+        elif exact:
+            if lo == t:
+                lo += 1
+            if hi == t:
+                hi -= 1
+            if counts_up and t > lo:
+                hi = min(hi, t - 1)
+    return None if lo > hi else (lo, hi)
+
+
+_CASTS = ("ImplicitCastExpr", "CStyleCastExpr", "CXXStaticCastExpr", "CXXFunctionalCastExpr", "CXXReinterpretCastExpr", "CXXConstCastExpr")
+_WIDTH = {"bool": 1, "char": 1, "signed char": 1, "unsigned char": 1, "short": 2, "unsigned short": 2, "int": 4, "unsigned int": 4,
+          "long": 8, "unsigned long": 8, "long long": 8, "unsigned long long": 8}
+
+
+def narrowing(cast):
+    """an integral conversion to a type with fewer bits"""
+    if cast.get("cast") not in ("IntegralCast", "IntegralToBoolean"):
+        return False
+    to = _WIDTH.get((cast.get("ty") or "").replace("const ", "").strip(), 8)
+    frm = _WIDTH.get((cast.get("from") or "").replace("const ", "").strip(), 4 if "enum" in (cast.get("from") or "") else 8)
+    return to < frm
+
+
+class Lin:
+    """linear forms over symbols: 'depth', 'memory', 'size' (radixstack.size()), 'b' (size of the bucket in hand), 'pos0' /
+    'idx0' (the step's cursor before this bucket).  Everything that is not understood evaluates to None."""
+
+    def __init__(self, fn, sym, stack=None, strptr_param=None):
+        self.fn = fn
+        self.sym = sym             # decl id -> symbol
+        self.stack = stack
+        self.strptr_param = strptr_param
+        self.pos = None            # current value of the step's pos / idx
+        self.idx = None
+        self.bound = {}            # locals of the explored path: their value where they were last set
+        self.vals = {}             # node id -> value of an expression with a side effect (++x, x += e, x = e)
+        self.steps = set()         # locals that are references to radixstack.top()
+        self.ptrs = set()          # locals that name the string pointer the buckets are cut from
+        self.size_stale = False    # the stack was pushed/popped on this path
+
+    # -- what an expression denotes
+    def is_step(self, e):
+        e = strip_casts(e)
+        if e is None:
+            return False
+        if e["k"] == "DeclRefExpr":
+            return e["ref"]["id"] in self.steps
+        if e["k"] == "UnaryOperator" and e.get("op") == "*":
+            return self.is_step(kids(e)[0])     # *p with RadixStep* p = &radixstack.top()
+        return "callee" in e and e.get("member_call") and e["callee"]["name"] == "top" and self.stack is not None and \
+            ref_of(kids(e)[0]) == self.stack
+
+    def step_field(self, e):
+        e = strip_casts(e)
+        if e is not None and e["k"] == "MemberExpr" and kids(e) and self.is_step(kids(e)[0]):
+            return e.get("member")
+        return None
+
+    def is_ptr(self, e):
+        """the string pointer of the whole step: rs.strptr (out of place) or the sorter's own parameter (in place)"""
+        e = strip_casts(e)
+        if e is None:
+            return False
+        if self.step_field(e) == "strptr":
+            return True
+        if e["k"] == "DeclRefExpr":
+            return e["ref"]["id"] == self.strptr_param or e["ref"]["id"] in self.ptrs
+        return False
+
+    def ev(self, e, arg=False):
+        """arg: e is an argument / initialiser whose value is asked for before its conversion to the parameter type"""
+        c = const_int(e)
+        if c is not None:
+            return {1: c} if c else {}
+        while e is not None and e["k"] in _CASTS and kids(e):
+            if narrowing(e) and not arg:
+                return None         # the value is cut down to fewer bits: not a linear form of the operand
+            e = kids(e)[0]
+        e = strip_casts(e)
+        if e is None:
+            return None
+        c = const_int(e)
+        if c is not None:
+            return {1: c} if c else {}
+        if e.get("id") in self.vals:
+            v = self.vals[e["id"]]
+            return dict(v) if v is not None else None
+        k = e["k"]
+        if k in ("ParenExpr", "CXXDefaultInitExpr") and kids(e):
+            return self.ev(kids(e)[0])
+        if k == "DeclRefExpr":
+            did = e["ref"]["id"]
+            s = self.sym.get(did)
+            if s:
+                return {s: 1}
+            if did in self.bound:
+                v = self.bound[did]
+                return dict(v) if v is not None else None
+            # a local declared outside the explored fragment that only names a value; such a value may not depend on
+            # anything that moves while the loop runs
+            init = transparent_init(self.fn, did)
+            if init is not None:
+                v = self.ev(init)
+                if v is not None and not (set(v) & {"size", "pos0", "idx0", "b"}):
+                    return v
+            return None
+        f = self.step_field(e)
+        if f == "pos":
+            return dict(self.pos) if self.pos is not None else None
+        if f == "idx":
+            return dict(self.idx) if self.idx is not None else None
+        if "callee" in e and e["callee"]["name"] == "size" and e.get("member_call") and self.stack is not None and \
+                ref_of(kids(e)[0]) == self.stack:
+            return None if self.size_stale else {"size": 1}
+        ip = match.index_parts(e)
+        if ip and self.step_field(ip[0]) == "bkt_size":
+            i = self.ev(ip[1])
+            if i is None:
+                return None
+            return {"b": 1} if i == {"idx0": 1, 1: 1} else {"bkt_size[%s]" % fmt_lin(i): 1}
+        b = match.binop(e, ("+", "-", "*")) if k == "BinaryOperator" else None
+        if b:
+            x, y = self.ev(b[1]), self.ev(b[2])
+            if x is None or y is None:
+                return None
+            if b[0] == "*":
+                return lin_mul(x, y)
+            return lin_add(x, y, 1 if b[0] == "+" else -1)
+        return None
+
+
+def lin_write(L, z):
+    """(target, new value, value of the expression) if z is a write whose amount the linear evaluation understands"""
+    u = match.unop(z, ("++", "--")) if z["k"] == "UnaryOperator" else None
+    b = match.binop(z) if z["k"] in ("BinaryOperator", "CompoundAssignOperator") else None
+    if u:
+        old = L.ev(u[1])
+        new = lin_add(old, {1: 1}, 1 if u[0] == "++" else -1) if old is not None else None
+        return u[1], new, (old if u[2] else new)
+    if b and b[0] == "=":
+        new = L.ev(b[2])
+        return b[1], new, new
+    if b and b[0] in ("+=", "-="):
+        old, d = L.ev(b[1]), L.ev(b[2])
+        new = lin_add(old, d, 1 if b[0] == "+=" else -1) if old is not None and d is not None else None
+        return b[1], new, new
+    if b and b[0].endswith("=") and b[0] not in ("==", "!=", "<=", ">="):
+        return b[1], None, None
+    return None
 
 
 # ------------------------------------------------------------------ step classes
@@ -121,7 +392,11 @@ class StepInfo:
             raise ir.AnalysisBroken("%s::bkt_size is not an array" % self.rec)
         self.nb = int(f[0]["ty"].split("[")[1].split("]")[0])
         self.shadow = is_shadow_type(ctor.params[0]["ty"])
-        self.pnames = [p["name"] for p in ctor.params]
+        self.depth_i = role_index(ctor.params, "depth", ctor=True)
+        self.base_i = None if self.shadow else role_index(ctor.params, "base", ctor=True)
+        if self.depth_i is None or (not self.shadow and self.base_i is None and
+                                    len([p for p in ctor.params if is_size_t(p["ty"])]) > 1):
+            raise Undecidable("%s: %s: roles of the constructor parameters (base, depth) not recognised" % (ctor.loc, ctor.name))
 
 
 def loop_functions(tu):
@@ -149,288 +424,930 @@ def step_of(tu, fn, stackdecl):
     return StepInfo(tu, ctors[0]), emp
 
 
-def shadow_aware(tu, callee_did, seen=None):
-    """the callee treats its first parameter as a (possibly flipped) shadow pointer"""
+_AWARE = {}
+
+
+def shadow_aware(tu, callee_did, pidx=0, seen=None):
+    """does the callee treat its parameter as a (possibly flipped) shadow pointer?  True: it flips / copies back / reads the
+    shadow side itself or hands it to something that does; False: every use of the parameter is understood and works on the
+    active array in place; None: some use is not understood"""
+    seen = seen if seen is not None else set()
+    if (callee_did, pidx) in seen:
+        return False            # recursion: decided by the other uses
+    seen.add((callee_did, pidx))
     fn = tu.by_did.get(callee_did)
-    if fn is None or fn.body is None or not fn.params:
-        return False
-    p = fn.params[0]["did"]
+    if fn is None or fn.body is None or pidx >= len(fn.params):
+        return None
+    p = fn.params[pidx]["did"]
+    verdict = False
     for z in fn.nodes():
-        if "callee" in z and z.get("member_call") and z["callee"]["name"] in SHADOW_OPS and ref_of(kids(z)[0]) == p:
-            return True
-        if "callee" in z and z["callee"]["name"] == "emplace" and any(ref_of(a) == p for a in kids(z)[1:]):
-            return True
-    return False
+        if z["k"] != "DeclRefExpr" or z["ref"]["id"] != p:
+            continue
+        cur = z
+        while True:
+            par = fn.parent(cur)
+            while par is not None and strip_casts(par) is strip_casts(cur):
+                cur, par = par, fn.parent(par)      # casts and same-type copies
+            if par is None:
+                verdict = None if verdict is False else verdict
+                break
+            if par["k"] == "MemberExpr":
+                break                               # a (static) data member such as with_lcp
+            if "callee" not in par:
+                if par["k"] in ("CompoundStmt", "ReturnStmt"):
+                    break
+                verdict = None if verdict is False else verdict
+                break
+            name = par["callee"]["name"]
+            args = kids(par)
+            if par.get("member_call") and args and strip_casts(args[0]) is strip_casts(cur):
+                if name in SHADOW_OPS:
+                    return True
+                if name == "sub":
+                    cur = par                       # a sub-range of the same kind of pointer: follow its use
+                    continue
+                if name not in PTR_PURE:
+                    verdict = None if verdict is False else verdict
+                break
+            j = [i for i, a in enumerate(args) if strip_casts(a) is strip_casts(cur)]
+            if not j:
+                verdict = None if verdict is False else verdict
+                break
+            if name == "emplace":
+                return True
+            j = j[0] - (1 if par.get("member_call") else 0)
+            r = shadow_aware(tu, par["callee"].get("did"), j, seen) if par["callee"].get("did") in tu.by_did else None
+            if r is True:
+                return True
+            if r is None:
+                verdict = None if verdict is False else verdict
+            break
+    return verdict
 
 
 # ------------------------------------------------------------------ the radix loops
-def check_loops(ck, tu):
-    for fn, stackdecl in loop_functions(tu):
-        step, emplaces = step_of(tu, fn, stackdecl)
-        sym = {stackdecl["did"]: "stack"}
-        for p in fn.params:
-            if p["name"] in ("depth", "memory"):
-                sym[p["did"]] = p["name"]
-        strptr_param = fn.params[0]["did"]
-        whiles = [n for n in walk(fn.body) if n["k"] == "WhileStmt"]
-        inner = [w for w in whiles if any(z["k"] == "MemberExpr" and z.get("member") == "idx" for z in walk(kids(w)[0]))]
-        if len(inner) != 1:
-            raise ir.AnalysisBroken("%s: bucket loop not found" % fn.full)
-        w = inner[0]
-        # BUCKET-RANGE: idx < nb - 1 with pre-increment subscript
-        b = match.binop(kids(w)[0], ("<", "<=", "!="))
-        bound = const_int(b[2]) if b else None
-        sub = [z for z in walk(kids(w)[1]) if z["k"] == "ArraySubscriptExpr" and match.field_of(kids(z)[0]) and
-               match.field_of(kids(z)[0])[1] == "bkt_size"]
-        pre = bool(sub) and match.unop(kids(sub[0])[1], ("++",)) is not None and not match.unop(kids(sub[0])[1], ("++",))[2]
-        last = None
-        if b and bound is not None and pre:
-            last = bound if b[0] in ("<", "!=") else bound + 1
-        if last != step.nb - 1 or len(sub) != 1:
-            ck.violation("BUCKET-RANGE", fn.qname, "%s:last=%s" % (fn.name, last),
-                         "the loop visits buckets 1..%s of a %d-bucket step (bucket 0 is final in the constructor): %s"
-                         % (last, step.nb, dtable.describe(kids(w)[0])), fn.nloc(w))
-        else:
-            ck.ok("BUCKET-RANGE", where(fn), "buckets 1..%d of %d, pre-incremented index" % (last, step.nb))
-        bdecl = fn.parent(sub[0]) if sub else None
-        while bdecl is not None and bdecl["k"] != "VarDecl":
-            bdecl = fn.parent(bdecl)
-        if bdecl is None:
-            raise ir.AnalysisBroken("%s: bucket size variable not found" % fn.full)
-        sym[bdecl["did"]] = "b"
-        rsdecl = [n for n in walk(kids(w)[1]) if n["k"] == "VarDecl" and any(
-            "callee" in z and z["callee"]["name"] == "top" for z in walk(n))]
-        rs = rsdecl[0]["did"] if rsdecl else None
-        keep = {bdecl["did"]} | ({rs} if rs is not None else set())
-        body_stmts = [s for s in kids(kids(w)[1]) if s["k"] != "DeclStmt" or not any(v.get("did") in keep for v in kids(s))]
-        seq = {"k": "CompoundStmt", "ch": body_stmts, "id": -3}
+class Path:
+    """one path through the dispatch of one bucket: evaluates what happens to the step's cursor and to the bucket"""
 
-        def atomize(n, run):
-            n = strip_casts(n)
-            if n["k"] == "BinaryOperator" and n.get("op") in ("==", "!=", "<", "<=", ">", ">="):
-                return dtable.describe(n), False
+    def __init__(self, cx):
+        self.cx = cx
+        fn = cx.fn
+        self.L = Lin(fn, cx.sym, cx.stack, cx.strptr_param)
+        self.L.pos = {"pos0": 1}
+        self.L.idx = {"idx0": 1}
+        self.done = 0
+        self.rv = {}            # node id -> the bucket range an expression denotes
+        self.lr = {}            # local -> range
+        self.handons = []       # dict(range=, cons=, cname=, args=)
+        self.fills = []         # (lo, hi, val, node)
+        self.bsubs = []         # (index value, node) of the reads of rs.bkt_size[...]
+        self.lcp_writes = 0
+
+    def advance(self, run):
+        while self.done < len(run.events):
+            ev = run.events[self.done]
+            self.done += 1
+            if ev[0] == "decl":
+                self.decl(ev[1])
+            elif ev[0] == "expr":
+                self.expr(ev[1])
+            elif ev[0] == "loop":
+                self.loop(ev[1])
+
+    # -- values
+    def value(self, e):
+        e = strip_casts(e)
+        if e is None:
             return None
-        leaves = dtable.explore(seq, atomize, fn)
-        n_paths = 0
-        for lf in leaves:
-            n_paths += 1
-            cond = dtable.fmt_val(lf["val"])
-            empty = any(("b == 0" in k or "bkt_size == 0" in k) and v for k, v in lf["val"].items()) or \
-                any(("bkt_size <= 1" in k) and v for k, v in lf["val"].items())
-            L = Lin(fn, sym, {"pos0": 1})
-            advances = 0
-            ranges = []        # (kind, offset, length, homed, consumer, node)
-            consumers = []
-            fills = []
-            for ev in lf["events"]:
-                e = ev[1]
-                if ev[0] == "loop":
-                    # final-bucket LCP fill loop
-                    init, c, inc, body = match.loop_parts(e)
-                    var = [x for x in walk(init) if x["k"] == "VarDecl"] if init else []
-                    if var and kids(var[0]):
-                        lo = L.ev(kids(var[0])[0])
-                        hb = match.binop(c, ("<",))
-                        hi = L.ev(hb[2]) if hb else None
-                        sl = [z for z in walk(body) if "callee" in z and z["callee"]["name"] == "set_lcp"]
-                        val = L.ev(kids(sl[0])[2]) if sl else None
-                        fills.append((lo, hi, val, e))
-                    continue
-                if ev[0] == "decl":
-                    if kids(e) and kids(e)[0] is not None:
-                        v_ = L.ev(kids(e)[0])
-                        if v_ is not None:
-                            L.bound[e["did"]] = v_         # the value at the declaration, not at the use
-                    continue
-                if ev[0] != "expr":
-                    continue
-                for z in walk(e):
-                    if z["k"] == "CompoundAssignOperator" and z.get("op") == "+=" and match.field_of(kids(z)[0]) and \
-                            match.field_of(kids(z)[0])[1] == "pos":
-                        inc_ = L.ev(kids(z)[1])
-                        if inc_ != {"b": 1}:
-                            ck.violation("BUCKET-DISPOSED", fn.qname, "%s:advance" % fn.name,
-                                         "rs.pos advances by %s instead of the bucket size" % fmt_lin(inc_), fn.nloc(z))
-                        L.pos = lin_add(L.pos, inc_ or {})
-                        advances += 1
-                # range expressions are evaluated with the pos value at their point: process in evaluation order
-                for z in sorted([z for z in walk(e) if "callee" in z and z.get("member_call") and z["callee"]["name"] in ("flip", "sub")
-                                 and len(kids(z)) == 3], key=lambda q: q["id"]):
-                    recv = strip_casts(kids(z)[0])
-                    f = match.field_of(recv)
-                    on_step = f is not None and f[1] == "strptr" and ref_of(f[0]) == rs
-                    on_param = ref_of(recv) == strptr_param
-                    if not (on_step or on_param):
-                        continue
-                    # the pos value: if a += precedes in this same event it was already applied above
-                    off, ln = L.ev(kids(z)[1]), L.ev(kids(z)[2])
-                    par = fn.parent(z)
-                    homed = False
-                    top = z
-                    while par is not None and "callee" in par and par.get("member_call") and strip_casts(kids(par)[0]) is top \
-                            and par["callee"]["name"] in ("copy_back",):
-                        homed = True
-                        top = par
-                        par = fn.parent(par)
-                    cons = par
-                    while cons is not None and "callee" not in cons and cons["k"] not in ("CompoundStmt",):
-                        cons = fn.parent(cons)
-                    cname = cons["callee"]["name"] if cons is not None and "callee" in cons else None
-                    ranges.append(dict(kind=z["callee"]["name"], off=off, len=ln, homed=homed, cons=cons, cname=cname, node=z))
-            sig = "%s:{%s}" % (fn.name, cond)
-            if advances != 1 and not (empty and advances == 0):
-                ck.violation("BUCKET-DISPOSED", fn.qname, sig + ":advance",
-                             "on the path {%s} rs.pos is advanced %d times; every bucket moves the position exactly once" % (cond, advances),
-                             fn.nloc(w))
-                continue
-            if empty:
-                if ranges:
-                    ck.violation("BUCKET-DISPOSED", fn.qname, sig, "an empty bucket is handed on", fn.nloc(w))
-                continue
-            if len(ranges) > 1:
-                ck.violation("BUCKET-DISPOSED", fn.qname, sig, "the bucket is handed on %d times on the path {%s}" % (len(ranges), cond), fn.nloc(w))
-                continue
-            if not ranges:
-                if step.shadow:
-                    ck.violation("BUCKET-DISPOSED", fn.qname, sig,
-                                 "on the path {%s} a non-empty bucket stays in the shadow array: it is neither sorted nor copied back" % cond,
-                                 fn.nloc(w))
-                    continue
-                # in place: nothing to move; a final bucket only gets its LCP run filled
-                if not fills:
-                    ck.violation("BUCKET-DISPOSED", fn.qname, sig, "on the path {%s} a bucket of 2+ strings is neither sorted nor final" % cond,
-                                 fn.nloc(w))
-                    continue
-            for r in ranges:
-                if r["off"] != {"pos0": 1} or r["len"] != {"b": 1}:
-                    ck.violation("BUCKET-DISPOSED", fn.qname, sig + ":range",
-                                 "the bucket handed on is [%s, +%s) but the bucket occupies [pos, +bkt_size) (pos before this bucket's advance)"
-                                 % (fmt_lin(r["off"]), fmt_lin(r["len"])), fn.nloc(r["node"]))
-                    continue
-                cons, cname = r["cons"], r["cname"]
-                if cname is None or cname in ("copy_back",):
-                    # bare flip(...).copy_back(): final bucket
-                    if step.shadow and not r["homed"]:
-                        ck.violation("HOME-BEFORE-INPLACE", fn.qname, sig, "a final bucket is flipped but not copied back", fn.nloc(r["node"]))
-                    elif step.shadow and not fills and step.k == 2:
-                        pass
-                    ck.ok("BUCKET-DISPOSED", where(fn, "{%s}" % cond), "final bucket copied home")
-                    continue
-                if cname == "emplace":
-                    aware = True
-                    dargs = kids(cons)[1:]
-                    pn = step.pnames
-                else:
-                    aware = shadow_aware(tu, cons["callee"]["did"])
-                    dargs = kids(cons)
-                    callee = tu.by_did.get(cons["callee"]["did"])
-                    pn = [p["name"] for p in callee.params] if callee else []
-                if r["kind"] == "flip" and not aware and not r["homed"]:
-                    ck.violation("HOME-BEFORE-INPLACE", fn.qname, "%s:%s" % (fn.name, cname),
-                                 "%s() sorts the active array in place, but the bucket handed to it by flip() may live in the temporary shadow "
-                                 "array: without copy_back() the caller's array keeps stale strings (not a permutation)" % cname, fn.nloc(r["node"]))
-                    continue
-                # depth bookkeeping
-                if "depth" in pn and pn.index("depth") < len(dargs):
-                    d = L.ev(dargs[pn.index("depth")])
-                    want = {"depth": 1, "size": step.k}
-                    if d != want:
-                        ck.violation("DEPTH-ADVANCE", fn.qname, "%s:%s" % (fn.name, cname),
-                                     "%s() continues at depth %s; a step of the %d-byte radix on stack level `size` has consumed depth + %d*size "
-                                     "characters" % (cname, fmt_lin(d), step.k, step.k), fn.nloc(cons))
-                        continue
-                    ck.ok("DEPTH-ADVANCE", where(fn, cname), "depth + %d*size" % step.k)
-                else:
-                    raise ir.AnalysisBroken("%s: depth parameter of %s not found" % (fn.full, cname))
-                if "base" in pn and pn.index("base") < len(dargs):
-                    bse = L.ev(dargs[pn.index("base")])
-                    if bse != {"pos0": 1}:
-                        ck.violation("BUCKET-DISPOSED", fn.qname, sig + ":base", "the new step's base is %s, the bucket starts at pos"
-                                     % fmt_lin(bse), fn.nloc(cons))
-                        continue
-                ck.ok("BUCKET-DISPOSED", where(fn, "{%s}" % cond), "[pos, +bkt_size) -> %s%s" % (cname, " after copy_back" if r["homed"] else ""))
-                if r["kind"] == "flip":
-                    ck.ok("HOME-BEFORE-INPLACE", where(fn, cname), "copied home" if r["homed"] else "shadow-aware consumer")
-            for lo, hi, val, node in fills:
-                good = lo == {"pos0": 1, 1: 1} and hi == {"pos0": 1, "b": 1} and val == {"depth": 1, "size": step.k, 1: -1}
-                if not good:
-                    ck.violation("DEPTH-ADVANCE", fn.qname, "%s:final-fill" % fn.name,
-                                 "the strings of a final bucket (second byte is the terminator) are all equal: positions (pos, pos+bkt_size) get LCP "
-                                 "depth + %d*size - 1; found [%s, %s) := %s" % (step.k, fmt_lin(lo), fmt_lin(hi), fmt_lin(val)), fn.nloc(node))
-                else:
-                    ck.ok("DEPTH-ADVANCE", where(fn, "final bucket"), "LCP run (pos, pos+bkt_size) = depth + %d*size - 1" % step.k)
-        # root step
-        root = [e for e in emplaces if not any(x is e for x in walk(w))]
-        if len(root) != 1:
-            raise ir.AnalysisBroken("%s: root emplace not found" % fn.full)
-        ra = kids(root[0])[1:]
-        pn = step.pnames
-        L = Lin(fn, sym, {})
-        okroot = ref_of(ra[0]) == strptr_param and L.ev(ra[pn.index("depth")]) == {"depth": 1} and \
-            ("base" not in pn or L.ev(ra[pn.index("base")]) == {})
-        if not okroot:
-            ck.violation("DEPTH-ADVANCE", fn.qname, "%s:root" % fn.name, "the root step must cover the whole input at the caller's depth: %s"
-                         % dtable.describe(root[0]), fn.nloc(root[0]))
+        if e.get("id") in self.rv:
+            return self.rv[e["id"]]
+        if e["k"] == "DeclRefExpr" and e["ref"]["id"] in self.lr:
+            return self.lr[e["ref"]["id"]]
+        return None
+
+    # -- statements
+    def decl(self, v):
+        fn, L = self.cx.fn, self.L
+        init = kids(v)[0] if kids(v) else None
+        if init is None:
+            L.bound[v["did"]] = None
+            return
+        for z in postorder(init):
+            self.node(z)
+        r = self.value(init)
+        if r is not None:
+            self.lr[v["did"]] = r
+        elif L.is_step(init) or (strip_casts(init)["k"] == "UnaryOperator" and strip_casts(init).get("op") == "&" and
+                                 L.is_step(kids(strip_casts(init))[0])):
+            L.steps.add(v["did"])               # a reference or pointer to radixstack.top()
+        elif L.is_ptr(init):
+            L.ptrs.add(v["did"])
         else:
-            ck.ok("DEPTH-ADVANCE", where(fn, "root"), "(strptr, [0,] depth)")
+            L.bound[v["did"]] = L.ev(init)
+
+    def expr(self, e):
+        for z in postorder(e):
+            self.node(z)
+        r = self.value(e)
+        if r is not None and r["kind"] == "flip":
+            # a range that is computed and dropped: flip(...).copy_back() as a statement copies a finished bucket home
+            # (a dropped sub(...) of an in-place pointer does nothing at all)
+            self.handons.append(dict(range=r, cons=None, cname=None, args=[]))
+
+    def write_value(self, z):
+        return lin_write(self.L, z)
+
+    def node(self, z):
+        cx, L = self.cx, self.L
+        fn = cx.fn
+        k = z["k"]
+        w = self.write_value(z) if k in ("UnaryOperator", "BinaryOperator", "CompoundAssignOperator") else None
+        if w:
+            tgt, new, val = w
+            f = L.step_field(tgt)
+            d = ref_of(tgt)
+            if f in ("pos", "idx"):
+                if new is None:
+                    und(fn, z, "rs.%s is changed by an amount that is not understood: %s" % (f, dtable.describe(z)))
+                setattr(L, f, new)
+                L.vals[z["id"]] = val
+            elif f is not None:
+                und(fn, z, "the radix step is written: %s" % dtable.describe(z))
+            elif d is not None and (d in L.bound or d in L.sym or decl_of(fn, d) is not None):
+                if d in L.sym:
+                    und(fn, z, "%s is modified inside the bucket loop" % L.sym[d])
+                if d in self.lr or d in L.steps or d in L.ptrs:
+                    und(fn, z, "a local naming the step or a bucket is reassigned: %s" % dtable.describe(z))
+                L.bound[d] = new
+                L.vals[z["id"]] = val
+            return
+        if k == "UnaryOperator" and z.get("op") == "&" and L.step_field(kids(z)[0]) is not None:
+            und(fn, z, "address of a field of the radix step is taken")
+        ip = match.index_parts(z) if k == "ArraySubscriptExpr" else None
+        if ip and L.step_field(ip[0]) == "bkt_size":
+            self.bsubs.append((L.ev(ip[1]), z))
+            return
+        if "callee" not in z:
+            return
+        name = z["callee"]["name"]
+        args = kids(z)
+        if k in ("CXXConstructExpr", "CXXTemporaryObjectExpr") and len(args) == 1 and self.value(args[0]) is not None:
+            self.rv[z["id"]] = self.value(args[0])      # a copy of the range
+            return
+        if z.get("member_call") and args:
+            recv = args[0]
+            if name in ("flip", "sub") and len(args) == 3 and L.is_ptr(recv):
+                self.rv[z["id"]] = dict(kind=name, off=L.ev(args[1]), len=L.ev(args[2]), homed=False, node=z)
+                return
+            rr = self.value(recv)
+            if rr is not None:
+                if name == "copy_back" and len(args) == 1:
+                    r2 = dict(rr)
+                    r2["homed"] = True
+                    self.rv[z["id"]] = r2
+                    return
+                und(fn, z, "%s() on a bucket range is not understood" % name)
+            if L.is_ptr(recv):
+                if name in ("set_lcp", "fill_lcp"):
+                    self.lcp_writes += 1
+                if name not in PTR_PURE:
+                    und(fn, z, "%s() on the step's string pointer is not understood" % name)
+                return
+            if cx.stack is not None and ref_of(recv) == cx.stack:
+                if name == "emplace":
+                    self.consume(z, args[1:], "emplace")
+                    L.size_stale = True
+                elif name in ("pop", "push"):
+                    L.size_stale = True
+                elif name not in STACK_PURE:
+                    und(fn, z, "%s() on the radix stack is not understood" % name)
+                return
+            if L.is_step(recv):
+                und(fn, z, "member function %s() of the radix step is not understood" % name)
+            self.consume(z, args[1:], name)
+            return
+        self.consume(z, args, name)
+
+    def consume(self, z, args, name):
+        cx, L = self.cx, self.L
+        got = [(i, self.value(a)) for i, a in enumerate(args)]
+        got = [(i, r) for i, r in got if r is not None]
+        if len(got) > 1:
+            und(cx.fn, z, "%s() receives two bucket ranges" % name)
+        if got:
+            self.handons.append(dict(range=got[0][1], cons=z, cname=name, args=args, argi=got[0][0], vals=[L.ev(a, arg=True) for a in args]))
+            return
+        # no range among the arguments: the call must not touch the step, the stack or the string pointer in another way
+        for a in args:
+            for y in walk(a):
+                if L.is_step(y) and L.step_field(cx.fn.parent(y)) is None:
+                    und(cx.fn, z, "the radix step is handed to %s()" % name)
+                if y["k"] == "DeclRefExpr" and y["ref"]["id"] == cx.stack and \
+                        not ("callee" in (cx.fn.parent(y) or {}) and cx.fn.parent(y)["callee"]["name"] in STACK_PURE):
+                    und(cx.fn, z, "the radix stack is handed to %s()" % name)
+            if L.is_ptr(a) and name not in ("StringShadowPtr", "StringShadowLcpPtr", "StringPtr", "StringLcpPtr"):
+                und(cx.fn, z, "the step's string pointer is handed to %s() without a bucket range" % name)
+
+    def loop(self, s):
+        """a loop inside the dispatch: either the LCP fill of a final bucket or something that does not touch the step"""
+        cx, L = self.cx, self.L
+        fn = cx.fn
+        touched = []
+        for y in walk(s):
+            if y["k"] in ("UnaryOperator", "BinaryOperator", "CompoundAssignOperator"):
+                w = self.write_value(y)
+                if w:
+                    if L.step_field(w[0]) is not None:
+                        und(fn, y, "the radix step is written inside a nested loop")
+                    d = ref_of(w[0])
+                    if d is not None:
+                        touched.append(d)
+            if "callee" in y:
+                nm = y["callee"]["name"]
+                recv = kids(y)[0] if y.get("member_call") and kids(y) else None
+                if recv is not None and cx.stack is not None and ref_of(recv) == cx.stack and nm not in STACK_PURE:
+                    und(fn, y, "the radix stack is changed inside a nested loop")
+                if nm in ("flip", "sub", "copy_back") and recv is not None and (L.is_ptr(recv) or self.value(recv) is not None):
+                    und(fn, y, "a bucket range is cut inside a nested loop")
+                if recv is not None and L.is_ptr(recv) and nm not in PTR_PURE:
+                    und(fn, y, "%s() on the step's string pointer inside a nested loop" % nm)
+                if recv is None or not (L.is_ptr(recv) or ref_of(recv) == cx.stack):
+                    for a in (kids(y)[1:] if y.get("member_call") else kids(y)):
+                        if L.is_ptr(a) or L.is_step(a) or self.value(a) is not None or ref_of(a) == cx.stack:
+                            und(fn, y, "%s() receives the step inside a nested loop" % nm)
+        sl = [y for y in walk(s) if "callee" in y and y["callee"]["name"] == "set_lcp" and y.get("member_call") and L.is_ptr(kids(y)[0])]
+        if sl:
+            self.fills.append(self.fill(s, sl))
+        for d in touched:
+            if d in L.bound:
+                L.bound[d] = None
+
+    def fill(self, s, sl):
+        """[lo, hi) := val of a counting loop whose body is one set_lcp(i, val)"""
+        cx, L = self.cx, self.L
+        fn = cx.fn
+        if s["k"] not in ("ForStmt", "WhileStmt") or len(sl) != 1:
+            und(fn, s, "LCP fill loop of a form that is not understood")
+        init, cond, inc, body = match.loop_parts(s)
+        incs = []
+        for part in (inc, body):
+            for y in walk(part):
+                w = self.write_value(y) if y["k"] in ("UnaryOperator", "BinaryOperator", "CompoundAssignOperator") else None
+                if w and ref_of(w[0]) is not None:
+                    incs.append((ref_of(w[0]), y))
+        if len(incs) != 1:
+            und(fn, s, "LCP fill loop: the counter is not advanced exactly once")
+        var, step = incs[0]
+        stmts = [x for x in (kids(body) if body is not None and body["k"] == "CompoundStmt" else [body]) if x is not None]
+        stmts = [x for x in stmts if x is not step]
+        if len(stmts) != 1 or strip_casts(stmts[0]) is not sl[0]:
+            und(fn, s, "LCP fill loop: the body is more than one set_lcp()")
+        # the start value
+        lo = None
+        ivars = [x for x in walk(init) if x["k"] == "VarDecl"] if init is not None else []
+        if ivars:
+            if len(ivars) != 1 or ivars[0]["did"] != var or not kids(ivars[0]):
+                und(fn, s, "LCP fill loop: start value not understood")
+            lo = L.ev(kids(ivars[0])[0])
+        elif init is not None:
+            b = match.binop(init, ("=",))
+            if not b or ref_of(b[1]) != var:
+                und(fn, s, "LCP fill loop: start value not understood")
+            lo = L.ev(b[2])
+        else:
+            lo = L.bound.get(var)
+        saved = L.bound.get(var, "absent")
+        L.bound[var] = {"#i": 1}
+        try:
+            w = self.write_value(step)
+            if w[1] != {"#i": 1, 1: 1}:
+                und(fn, step, "LCP fill loop: the counter does not advance by one")
+            hi = None
+            cb = match.binop(cond, ("<", "<=", ">", ">=", "!=")) if cond is not None else None
+            if cb:
+                x, y = L.ev(cb[1]), L.ev(cb[2])
+                cc = canon_cmp(cb[0], x, y) if x is not None and y is not None else None
+                if cc is not None and not isinstance(cc, bool):
+                    kind, l, neg = cc
+                    if l.get("#i") == 1 and ((kind == "lt" and not neg) or (kind == "eq" and neg)):
+                        hi = lin_scale(lin_add(l, {"#i": 1}, -1), -1)
+            call = sl[0]
+            at = L.ev(kids(call)[1], arg=True)
+            val = L.ev(kids(call)[2], arg=True)
+        finally:
+            if saved == "absent":
+                L.bound.pop(var, None)
+            else:
+                L.bound[var] = saved
+        if at != {"#i": 1}:
+            und(fn, call, "LCP fill loop: set_lcp() does not write at the counter")
+        if lo is None or hi is None or val is None or "#i" in val or "#i" in hi:
+            und(fn, s, "LCP fill loop: bounds or value not understood: [%s, %s) := %s" % (fmt_lin(lo), fmt_lin(hi), fmt_lin(val)))
+        return lo, hi, val, s
+
+
+class LoopCtx:
+    pass
+
+
+def bucket_loop(fn):
+    """the loop that dispatches one bucket per round: the innermost loop around the read of rs.bkt_size[...]"""
+    subs = [z for z in walk(fn.body) if z["k"] == "MemberExpr" and z.get("member") == "bkt_size" and
+            "RadixStep_" in (z.get("owner") or "")]
+    loops = set()
+    found = None
+    for z in subs:
+        p = fn.parent(z)
+        while p is not None and p["k"] not in ("WhileStmt", "ForStmt", "DoStmt", "CXXForRangeStmt"):
+            p = fn.parent(p)
+        if p is None:
+            raise ir.AnalysisBroken("%s: bucket size read outside a loop" % fn.full)
+        loops.add(p["id"])
+        found = p
+    if len(loops) != 1:
+        raise ir.AnalysisBroken("%s: bucket loop not found" % fn.full)
+    return found
+
+
+def check_loops(ck, tu):
+    # one function that is not understood does not hide what is found in the others (ck.guarded defers the `cannot decide`)
+    for fn, stackdecl in loop_functions(tu):
+        ck.guarded(lambda fn=fn, stackdecl=stackdecl: check_loop_fn(ck, tu, fn, stackdecl))
+
+
+def check_loop_fn(ck, tu, fn, stackdecl):
+    step, emplaces = step_of(tu, fn, stackdecl)
+    cx = LoopCtx()
+    cx.fn, cx.tu, cx.step = fn, tu, step
+    cx.stack = stackdecl["did"]
+    cx.strptr_param = fn.params[0]["did"]
+    cx.sym = {}
+    for role in ("depth", "memory"):
+        i = role_index(fn.params, role)
+        if i is None:
+            und(fn, None, "parameter with the role `%s` not recognised" % role)
+        cx.sym[fn.params[i]["did"]] = role
+    w = bucket_loop(fn)
+    # every access to a field of a radix step inside the loop goes through radixstack.top() or a local that names it
+    L0 = Lin(fn, cx.sym, cx.stack, cx.strptr_param)
+    for z in walk(w):
+        if z["k"] == "VarDecl" and kids(z) and kids(z)[0] is not None:
+            i0 = strip_casts(kids(z)[0])
+            if L0.is_step(i0) or (i0["k"] == "UnaryOperator" and i0.get("op") == "&" and L0.is_step(kids(i0)[0])):
+                L0.steps.add(z["did"])
+    for z in walk(w):
+        if z["k"] == "MemberExpr" and "RadixStep_" in (z.get("owner") or "") and kids(z) and not L0.is_step(kids(z)[0]):
+            und(fn, z, "field %s of a radix step is reached through %s, which is not understood" % (z.get("member"), dtable.describe(kids(z)[0])))
+    for d in L0.steps:
+        if writes_of(fn, d):
+            und(fn, w, "a local naming the radix step is reassigned")
+    if w["k"] not in ("WhileStmt", "ForStmt"):
+        und(fn, w, "bucket loop is a %s" % w["k"])
+    init, cond, inc, body = match.loop_parts(w)
+    if init is not None:
+        und(fn, w, "bucket loop with an init statement")
+    stmts = []
+    if cond is not None and const_int(cond) != 1:
+        neg = {"k": "UnaryOperator", "op": "!", "id": -31, "ty": "bool", "l": cond.get("l"), "ch": [cond]}
+        stmts.append({"k": "IfStmt", "id": -32, "l": cond.get("l"), "ch": [neg, {"k": "BreakStmt", "id": -33}, None]})
+    stmts += [x for x in (kids(body) if body is not None and body["k"] == "CompoundStmt" else [body])]
+    if inc is not None:
+        stmts.append(inc)
+    seq = {"k": "CompoundStmt", "ch": stmts, "id": -3}
+    atoms = {}                  # key -> (kind, lin) of the atoms that are linear comparisons
+
+    def state(run):
+        st = getattr(run, "_c03", None)
+        if st is None:
+            st = run._c03 = Path(cx)
+        st.advance(run)
+        return st
+
+    def atomize(n, run):
+        n0 = n
+        if n["k"] in ("ImplicitCastExpr", "CStyleCastExpr", "CXXStaticCastExpr", "CXXFunctionalCastExpr"):
+            if n.get("cast") != "IntegralToBoolean":
+                return None
+            inner = strip_casts(n)
+            if (inner.get("ty") or "").replace("const ", "") == "bool":
+                return None
+            op, lhs, rhs = "!=", inner, None
+        elif n["k"] == "BinaryOperator" and n.get("op") in ("==", "!=", "<", "<=", ">", ">="):
+            op, lhs, rhs = n["op"], kids(n)[0], kids(n)[1]
+        else:
+            return None
+        st = state(run)
+        L = st.L
+        for side in (lhs, rhs):
+            for z in postorder(side):
+                if z["k"] in ("UnaryOperator", "BinaryOperator", "CompoundAssignOperator") and st.write_value(z):
+                    und(fn, n0, "condition with a side effect: %s" % dtable.describe(n0))
+        a = L.ev(lhs)
+        b = L.ev(rhs) if rhs is not None else {}
+        if a is not None and b is not None:
+            cc = canon_cmp(op, a, b)
+            if isinstance(cc, bool):
+                return cc
+            kind, l, neg = cc
+            key = atom_text(kind, l)
+            atoms[key] = (kind, l)
+            return key, neg
+        # the second byte of the 16-bit key is the terminator: (rs.idx & 0xFF) == 0 for the bucket in hand
+        if op in ("==", "!=") and (rhs is None or const_int(rhs) == 0 or const_int(lhs) == 0):
+            e0 = lhs if (rhs is None or const_int(rhs) == 0) else rhs
+            e = strip_casts(e0)
+            low = None
+            c_ = e0
+            while c_ is not None and c_["k"] in _CASTS and kids(c_):
+                if c_.get("cast") == "IntegralCast" and _WIDTH.get((c_.get("ty") or "").replace("const ", "").strip()) == 1 and \
+                        "unsigned" in (c_.get("ty") or "") and _WIDTH.get((c_.get("from") or "").replace("const ", "").strip(), 8) > 1:
+                    low = kids(c_)[0]       # static_cast<std::uint8_t>(idx)
+                    break
+                c_ = kids(c_)[0]
+            mb = match.binop(e, ("&", "%")) if low is None else None
+            if mb and mb[0] == "&":
+                for x, y in ((mb[1], mb[2]), (mb[2], mb[1])):
+                    if const_int(y) == 255:
+                        low = x
+            elif mb and const_int(mb[2]) == 256:
+                low = mb[1]
+            if low is not None:
+                if L.ev(low) == {"idx0": 1, 1: 1}:
+                    return "final", op == "!="
+                if L.ev(low) is not None:
+                    und(fn, n0, "low byte of an index that is not the bucket in hand: %s" % dtable.describe(n0))
+        # not understood: an opaque atom (equal spellings and their negations share one atom)
+        if rhs is None:
+            return "?" + dtable.describe(lhs), False
+        flip = {"!=": ("==", False, True), "==": ("==", False, False), "<": ("<", False, False), ">=": ("<", False, True),
+                ">": ("<", True, False), "<=": ("<", True, True)}[op]
+        x, y = (rhs, lhs) if flip[1] else (lhs, rhs)
+        return "?(%s %s %s)" % (dtable.describe(x), flip[0], dtable.describe(y)), flip[2]
+
+    leaves = dtable.explore(seq, atomize, fn)
+    seen_sig = set()
+
+    def report(rule, sig, msg, node):
+        if (rule, sig) in seen_sig:
+            return
+        seen_sig.add((rule, sig))
+        ck.violation(rule, fn.qname, sig, msg, fn.nloc(node) if node is not None else fn.loc)
+
+    lcp = "LcpPtr" in fn.full
+    last_all = None
+    n_iter = 0
+    for lf in leaves:
+        st = state(lf["run"])
+        L = st.L
+        stop = lf["stop"][0]
+        if stop == "break":
+            continue
+        if stop not in ("end", "continue"):
+            und(fn, w, "the bucket dispatch leaves the function by %s" % stop)
+        if stop == "continue" and inc is not None:
+            und(fn, w, "continue in a bucket loop with an increment expression")
+        biv = sym_interval(lf["val"], atoms, "b")
+        iiv = sym_interval(lf["val"], atoms, "idx0", counts_up=True)
+        if biv is None or iiv is None:
+            continue            # contradictory tests: no execution takes this path
+        n_iter += 1
+
+        def fixb(l):
+            """on a path that knows the bucket size exactly (b == c) the symbol b is that number"""
+            if l is None or biv[0] != biv[1] or "b" not in l:
+                return l
+            return lin_add({k_: v_ for k_, v_ in l.items() if k_ != "b"}, {1: l["b"] * biv[0]})
+        cond_s = dtable.fmt_val(lf["val"])
+        sig = "%s:{%s}" % (fn.name, cond_s)
+        opaque = [k for k in lf["val"] if k.startswith("?")]
+        final = lf["val"].get("final") is True
+        # ---- BUCKET-RANGE: which bucket this round handles and where the index ends
+        if not st.bsubs:
+            und(fn, w, "on the path {%s} the size of the bucket is not read from rs.bkt_size[...]" % cond_s)
+        bad_range = False
+        for iv_, z in st.bsubs:
+            if iv_ is None:
+                und(fn, z, "index of %s not understood" % dtable.describe(z))
+            if iv_ != {"idx0": 1, 1: 1}:
+                report("BUCKET-RANGE", "%s:bucket=%s" % (fn.name, fmt_lin(iv_)),
+                       "a round of the loop must handle bucket idx+1 (bucket 0 is final in the constructor); it reads the size of "
+                       "bucket %s: %s" % (fmt_lin(iv_), dtable.describe(z)), z)
+                bad_range = True
+        if L.idx != {"idx0": 1, 1: 1}:
+            report("BUCKET-RANGE", "%s:step=%s" % (fn.name, fmt_lin(L.idx)),
+                   "on the path {%s} rs.idx moves from idx to %s; every round handles exactly the next bucket" % (cond_s, fmt_lin(L.idx)), w)
+            bad_range = True
+        if bad_range:
+            continue
+        if iiv[1] == INF:
+            und(fn, w, "on the path {%s} the loop does not bound rs.idx by a comparison that is understood" % cond_s)
+        last_all = max(last_all or 0, iiv[1] + 1)
+        # ---- BUCKET-DISPOSED: the position moves by the bucket size
+        want_pos = {"pos0": 1, "b": 1}
+        if fixb(L.pos) != fixb(want_pos):
+            report("BUCKET-DISPOSED", sig + ":advance",
+                   "on the path {%s} rs.pos moves from pos to %s; every bucket moves the position by exactly its size (pos + b)"
+                   % (cond_s, fmt_lin(L.pos)), w)
+            continue
+        hand = st.handons
+        for h in hand:
+            r = h["range"]
+            if r["off"] is None or r["len"] is None:
+                und(fn, r["node"], "bucket range not understood: %s" % dtable.describe(r["node"]))
+        if biv[1] == 0:
+            if hand:
+                report("BUCKET-DISPOSED", sig, "an empty bucket is handed on", hand[0]["range"]["node"])
+            continue
+        if len(hand) > 1:
+            report("BUCKET-DISPOSED", sig, "the bucket is handed on %d times on the path {%s}" % (len(hand), cond_s), hand[1]["range"]["node"])
+            continue
+        if not hand:
+            if not step.shadow and biv[1] <= 1:
+                continue        # in place: a bucket of at most one string is where it belongs
+            if st.lr:
+                und(fn, w, "on the path {%s} a bucket range is named but not used in a way that is understood" % cond_s)
+            if step.shadow:
+                if opaque:
+                    und(fn, w, "on the path {%s} nothing happens to the bucket, and the path depends on a test that is not understood" % cond_s)
+                report("BUCKET-DISPOSED", sig, "on the path {%s} a non-empty bucket stays in the shadow array: it is neither sorted nor copied back"
+                       % cond_s, w)
+                continue
+            # in place: nothing to move; only a final bucket (second key byte is the terminator) may stay unsorted
+            if not (final and step.k == 2):
+                if opaque:
+                    und(fn, w, "on the path {%s} nothing happens to the bucket, and the path depends on a test that is not understood" % cond_s)
+                report("BUCKET-DISPOSED", sig, "on the path {%s} a bucket of 2+ strings is neither sorted nor final" % cond_s, w)
+                continue
+            if lcp and not st.fills:
+                if st.lcp_writes:
+                    und(fn, w, "on the path {%s} the LCPs of a final bucket are written in a form that is not understood" % cond_s)
+                report("BUCKET-DISPOSED", sig, "on the path {%s} a final bucket of 2+ equal strings gets no LCP values" % cond_s, w)
+                continue
+            if st.fills or not lcp:
+                ck.ok("BUCKET-DISPOSED", where(fn, "{%s}" % cond_s), "final bucket stays in place")
+        for h in hand:
+            r = h["range"]
+            if r["off"] != {"pos0": 1} or fixb(r["len"]) != fixb({"b": 1}):
+                report("BUCKET-DISPOSED", sig + ":range",
+                       "the bucket handed on is [%s, +%s) but the bucket occupies [pos, +bkt_size) (pos before this bucket's advance)"
+                       % (fmt_lin(r["off"]), fmt_lin(r["len"])), r["node"])
+                continue
+            cons, cname = h["cons"], h["cname"]
+            if cons is None:
+                # flip(...).copy_back() as a statement: a final bucket
+                if r["kind"] == "flip" and not r["homed"]:
+                    report("HOME-BEFORE-INPLACE", sig, "a final bucket is flipped but not copied back", r["node"])
+                    continue
+                if step.shadow and biv[1] > 1 and not (final and step.k == 2):
+                    if opaque:
+                        und(fn, r["node"], "a bucket is copied home unsorted on the path {%s} which depends on a test that is not understood" % cond_s)
+                    report("BUCKET-DISPOSED", sig, "on the path {%s} a bucket of strings that do not end here is copied home without being sorted"
+                           % cond_s, r["node"])
+                    continue
+                if lcp and step.shadow and biv[1] > 1 and not st.fills:
+                    if st.lcp_writes:
+                        und(fn, r["node"], "on the path {%s} the LCPs of a final bucket are written in a form that is not understood" % cond_s)
+                    report("BUCKET-DISPOSED", sig, "on the path {%s} a final bucket of 2+ equal strings gets no LCP values" % cond_s, r["node"])
+                    continue
+                ck.ok("BUCKET-DISPOSED", where(fn, "{%s}" % cond_s), "final bucket copied home")
+                continue
+            if cname == "emplace":
+                aware = True
+                dargs = h["args"]
+                depth_i, base_i = step.depth_i, step.base_i
+                if h["argi"] != 0:
+                    und(fn, cons, "the bucket is not the first argument of the new step")
+            else:
+                callee = tu.by_did.get(cons["callee"].get("did"))
+                if callee is None:
+                    und(fn, cons, "%s() receives the bucket but its body is not known" % cname)
+                aware = None
+                if r["kind"] == "flip" and not r["homed"]:
+                    ckey = (callee.did, h["argi"])
+                    if ckey not in _AWARE:
+                        _AWARE[ckey] = shadow_aware(tu, callee.did, h["argi"])
+                    aware = _AWARE[ckey]
+                dargs = h["args"]
+                depth_i, base_i = role_index(callee.params, "depth"), None
+            if r["kind"] == "flip" and not r["homed"]:
+                if aware is None:
+                    und(fn, cons, "%s() receives a flipped bucket; how it uses the pointer is not understood" % cname)
+                if not aware:
+                    report("HOME-BEFORE-INPLACE", "%s:%s" % (fn.name, cname),
+                           "%s() sorts the active array in place, but the bucket handed to it by flip() may live in the temporary shadow "
+                           "array: without copy_back() the caller's array keeps stale strings (not a permutation)" % cname, r["node"])
+                    continue
+            # depth bookkeeping
+            if depth_i is None or depth_i >= len(dargs):
+                raise ir.AnalysisBroken("%s: depth parameter of %s not found" % (fn.full, cname))
+            d = h["vals"][depth_i]
+            want = {"depth": 1, "size": step.k}
+            if d is None:
+                und(fn, dargs[depth_i], "depth handed to %s() not understood: %s" % (cname, dtable.describe(dargs[depth_i])))
+            if d != want:
+                report("DEPTH-ADVANCE", "%s:%s" % (fn.name, cname),
+                       "%s() continues at depth %s; a step of the %d-byte radix on stack level `size` has consumed depth + %d*size "
+                       "characters" % (cname, fmt_lin(d), step.k, step.k), cons)
+                continue
+            ck.ok("DEPTH-ADVANCE", where(fn, cname), "depth + %d*size" % step.k)
+            if base_i is not None and base_i < len(dargs):
+                bse = h["vals"][base_i]
+                if bse is None:
+                    und(fn, dargs[base_i], "base of the new step not understood: %s" % dtable.describe(dargs[base_i]))
+                if bse != {"pos0": 1}:
+                    report("BUCKET-DISPOSED", sig + ":base", "the new step's base is %s, the bucket starts at pos" % fmt_lin(bse), cons)
+                    continue
+            ck.ok("BUCKET-DISPOSED", where(fn, "{%s}" % cond_s), "[pos, +bkt_size) -> %s%s" % (cname, " after copy_back" if r["homed"] else ""))
+            if r["kind"] == "flip":
+                ck.ok("HOME-BEFORE-INPLACE", where(fn, cname), "copied home" if r["homed"] else "shadow-aware consumer")
+        for lo, hi, val, node in st.fills:
+            good = lo == {"pos0": 1, 1: 1} and fixb(hi) == fixb({"pos0": 1, "b": 1}) and val == {"depth": 1, "size": step.k, 1: -1}
+            if not good:
+                report("DEPTH-ADVANCE", "%s:final-fill" % fn.name,
+                       "the strings of a final bucket (second byte is the terminator) are all equal: positions (pos, pos+bkt_size) get LCP "
+                       "depth + %d*size - 1; found [%s, %s) := %s" % (step.k, fmt_lin(lo), fmt_lin(hi), fmt_lin(val)), node)
+            else:
+                ck.ok("DEPTH-ADVANCE", where(fn, "final bucket"), "LCP run (pos, pos+bkt_size) = depth + %d*size - 1" % step.k)
+    if not n_iter:
+        und(fn, w, "no path through the bucket dispatch was understood")
+    if last_all is not None:
+        if last_all != step.nb - 1:
+            report("BUCKET-RANGE", "%s:last=%s" % (fn.name, last_all),
+                   "the loop visits buckets 1..%s of a %d-bucket step (bucket 0 is final in the constructor): %s"
+                   % (last_all, step.nb, dtable.describe(cond) if cond is not None else "<loop>"), w)
+        else:
+            ck.ok("BUCKET-RANGE", where(fn), "buckets 1..%d of %d, index advanced before the bucket is read" % (last_all, step.nb))
+    # root step
+    root = [e for e in emplaces if not any(x is e for x in walk(w))]
+    if len(root) != 1:
+        raise ir.AnalysisBroken("%s: root emplace not found" % fn.full)
+    ra = kids(root[0])[1:]
+    L = Lin(fn, cx.sym, cx.stack, cx.strptr_param)
+    a0 = resolve(fn, ra[0])
+    if ref_of(a0) != cx.strptr_param:
+        if not ("callee" in a0 and a0["callee"]["name"] in ("sub", "flip", "copy_back")):
+            und(fn, root[0], "string pointer of the root step not understood: %s" % dtable.describe(ra[0]))
+        okroot = False
+    else:
+        dv = L.ev(ra[step.depth_i]) if step.depth_i < len(ra) else None
+        bv = L.ev(ra[step.base_i]) if step.base_i is not None and step.base_i < len(ra) else {}
+        if dv is None or bv is None:
+            und(fn, root[0], "depth/base of the root step not understood: %s" % dtable.describe(root[0]))
+        okroot = dv == {"depth": 1} and bv == {}
+    if not okroot:
+        ck.violation("DEPTH-ADVANCE", fn.qname, "%s:root" % fn.name, "the root step must cover the whole input at the caller's depth: %s"
+                     % dtable.describe(root[0]), fn.nloc(root[0]))
+    else:
+        ck.ok("DEPTH-ADVANCE", where(fn, "root"), "(strptr, [0,] depth)")
 
 
 # ------------------------------------------------------------------ step constructors
+class CtorLin(Lin):
+    """linear forms inside a step constructor: this->pos / this->idx are the cursor, this->bkt_size[c] a symbol"""
+
+    def is_step(self, e):
+        e = strip_casts(e)
+        return e is not None and e["k"] == "This"
+
+    def ev(self, e):
+        s = strip_casts(e)
+        ip = match.index_parts(s) if s is not None else None
+        if ip and self.step_field(ip[0]) == "bkt_size":
+            i = self.ev(ip[1])
+            if i is not None and set(i) <= {1}:
+                return {"bkt_size[%d]" % i.get(1, 0): 1}
+            return None
+        return Lin.ev(self, e)
+
+
 def check_steps(ck, tu):
     for ctor in [f for f in tu.functions if f.kind == "ctor" and f.record and f.record.startswith(NS + "RadixStep_")]:
-        info = StepInfo(tu, ctor)
-        g = cfgm.CFG(ctor)
-        # bucket 0: pos = [base +] bkt_size[0]; flipped home for shadow steps
-        posw = [z for z in ctor.nodes() if z["k"] == "BinaryOperator" and z.get("op") == "=" and match.this_field(kids(z)[0]) == "pos"]
-        idxw = [z for z in ctor.nodes() if z["k"] == "BinaryOperator" and z.get("op") == "=" and match.this_field(kids(z)[0]) == "idx"]
-        good = len(posw) == 1 and len(idxw) == 1 and const_int(kids(idxw[0])[1]) == 0
-        if good:
-            rhs = strip_casts(kids(posw[0])[1])
-            terms = [rhs]
-            bb = match.binop(rhs, ("+",))
-            if bb:
-                terms = [strip_casts(bb[1]), strip_casts(bb[2])]
-            b0 = [t for t in terms if match.index_parts(t) and match.this_field(match.index_parts(t)[0]) == "bkt_size"
-                  and const_int(match.index_parts(t)[1]) == 0]
-            base = [t for t in terms if t["k"] == "DeclRefExpr" and t["ref"]["name"] == "base"]
-            good = len(b0) == 1 and (len(terms) == 1 or (len(base) == 1 and "base" in info.pnames))
-            if "base" in info.pnames and not base:
-                good = False
-        if not good:
-            ck.violation("STEP-BUCKET0", ctor.qname, ctor.name + ":cursor", "a step must start with idx = 0 and pos = [base +] bkt_size[0]", ctor.loc)
-        elif info.shadow:
-            homes = []
-            for z in ctor.nodes():
-                if "callee" in z and z["callee"]["name"] == "copy_back" and z.get("member_call"):
-                    fl = strip_casts(kids(z)[0])
-                    if "callee" in fl and fl["callee"]["name"] == "flip" and match.this_field(kids(fl)[0]) == "strptr":
-                        off, ln = kids(fl)[1], kids(fl)[2]
-                        if const_int(off) == 0 and (match.this_field(ln) == "pos" or (
-                                match.index_parts(ln) and const_int(match.index_parts(ln)[1]) == 0)):
-                            homes.append(z)
-            ok0 = False
-            for h in homes:
-                p = g.pos_deep(h)
-                if g.postdominates(p, (g.entry, -1)) or all(g.path_avoiding((g.entry, -1), [p]) is None for _ in (0,)):
-                    ok0 = g.path_avoiding((g.entry, -1), [p]) is None
-                # must come after pos was set if it uses pos
-                if ok0 and match.this_field(kids(strip_casts(kids(h)[0]))[2]) == "pos":
-                    ok0 = g.dominates(g.pos_deep(posw[0]), p)
-            if not ok0:
-                ck.violation("STEP-BUCKET0", ctor.qname, ctor.name + ":home",
-                             "bucket 0 (strings that end here) is final: after the distribution it must be flipped and copied home on every path "
-                             "(strptr.flip(0, pos).copy_back())", ctor.loc)
+        def one(ctor=ctor):
+            info = StepInfo(tu, ctor)
+            ck.guarded(lambda: check_bucket0(ck, tu, ctor, info))
+            ck.guarded(lambda: check_prefix(ck, ctor, info))
+        ck.guarded(one)
+
+
+def check_bucket0(ck, tu, ctor, info):
+    """the cursor starts at idx = 0, pos = [base +] bkt_size[0]; an out-of-place step copies bucket 0 home on every path"""
+    sym = {ctor.params[info.depth_i]["did"]: "depth"}
+    if info.base_i is not None:
+        sym[ctor.params[info.base_i]["did"]] = "base"
+    L = CtorLin(ctor, sym)
+    L.pos = {"<pos not set yet>": 1}
+    L.idx = {"<idx not set yet>": 1}
+    written = set()
+    for i in ctor.inits:
+        if i.get("field") in ("pos", "idx") and i.get("e") is not None:
+            v = L.ev(i["e"])
+            if v is None:
+                und(ctor, i["e"], "initialiser of %s not understood" % i["field"])
+            setattr(L, i["field"], v)
+            written.add(i["field"])
+    for z in ctor.nodes():
+        if z["k"] == "MemberExpr" and z.get("member") in ("pos", "idx", "bkt_size", "strptr") and "RadixStep_" in (z.get("owner") or "") and \
+                kids(z) and strip_casts(kids(z)[0])["k"] != "This":
+            und(ctor, z, "field %s of the step is reached through %s, which is not understood" % (z["member"], dtable.describe(kids(z)[0])))
+    homes = []                  # (node, off, len)
+
+    def flat(stmts):
+        for s_ in stmts:
+            if s_ is not None and s_["k"] == "CompoundStmt":
+                yield from flat(kids(s_))
+            elif s_ is not None:
+                yield s_
+    for s in flat(kids(ctor.body)):
+        # the statements of the constructor in order; what happens inside branches and loops is looked at, but the cursor
+        # may only be set by straight-line statements
+        simple = s["k"] not in ("IfStmt", "ForStmt", "WhileStmt", "DoStmt", "SwitchStmt", "CXXForRangeStmt", "CXXTryStmt")
+        for z in postorder(s) if simple else walk(s):
+            if z["k"] in ("UnaryOperator", "BinaryOperator", "CompoundAssignOperator"):
+                w = lin_write(L, z)
+                f = L.step_field(w[0]) if w else None
+                if f in ("pos", "idx"):
+                    if not simple:
+                        und(ctor, z, "%s is set inside a branch or loop of the step constructor" % f)
+                    if w[1] is None:
+                        und(ctor, z, "value given to %s not understood: %s" % (f, dtable.describe(z)))
+                    setattr(L, f, w[1])
+                    L.vals[z["id"]] = w[2]
+                    written.add(f)
+            if z["k"] == "UnaryOperator" and z.get("op") == "&" and L.step_field(kids(z)[0]) in ("pos", "idx"):
+                und(ctor, z, "address of the cursor is taken")
+            if z["k"] == "VarDecl" and kids(z) and kids(z)[0] is not None:
+                if z.get("isref") and L.step_field(kids(z)[0]) in ("pos", "idx"):
+                    und(ctor, z, "a reference to the cursor is taken")
+                if simple:
+                    L.bound[z["did"]] = L.ev(kids(z)[0])    # the value where it is declared
+            if "callee" not in z:
+                continue
+            name = z["callee"]["name"]
+            args = kids(z)
+            recv = args[0] if z.get("member_call") and args else None
+            if recv is not None and strip_casts(recv)["k"] == "This" and name != ctor.name:
+                callee = tu.by_did.get(z["callee"].get("did"))
+                if callee is None or any(match.this_field(w_[0]) in ("pos", "idx") for y in callee.nodes()
+                                         for w_ in [lin_write(L, y) if y["k"] in ("UnaryOperator", "BinaryOperator", "CompoundAssignOperator") else None] if w_):
+                    und(ctor, z, "%s() may set the cursor" % name)
+            if name == "copy_back" and recv is not None:
+                fl = resolve(ctor, recv)
+                if "callee" in fl and fl["callee"]["name"] == "flip" and fl.get("member_call") and len(kids(fl)) == 3 and \
+                        match.this_field(resolve(ctor, kids(fl)[0])) == "strptr":
+                    off, ln = L.ev(kids(fl)[1]), L.ev(kids(fl)[2])
+                    if off is None or ln is None:
+                        und(ctor, z, "range copied home not understood: %s" % dtable.describe(z))
+                    homes.append((z, off, ln))
+                elif info.shadow:
+                    und(ctor, z, "copy_back() on something that is not strptr.flip(offset, size): %s" % dtable.describe(z))
+            elif recv is not None and match.this_field(resolve(ctor, recv)) == "strptr":
+                if name not in PTR_PURE and name != "flip":
+                    und(ctor, z, "%s() on the step's string pointer is not understood" % name)
             else:
-                ck.ok("STEP-BUCKET0", where(ctor), "idx=0, pos=bkt_size[0], bucket 0 copied home on all paths")
-        else:
-            ck.ok("STEP-BUCKET0", where(ctor), "idx=0, pos=base+bkt_size[0] (in place)")
-        check_prefix(ck, ctor, info)
+                for a in (args[1:] if z.get("member_call") else args):
+                    sa = strip_casts(a)
+                    if sa is not None and (sa["k"] == "This" or match.this_field(sa) == "strptr" or
+                                           (sa["k"] == "UnaryOperator" and sa.get("op") == "*" and strip_casts(kids(sa)[0])["k"] == "This")):
+                        und(ctor, z, "the step (or its string pointer) is handed to %s()" % name)
+    want_pos = {"bkt_size[0]": 1}
+    if info.base_i is not None:
+        want_pos["base"] = 1
+    if L.idx != {} or L.pos != want_pos:
+        ck.violation("STEP-BUCKET0", ctor.qname, ctor.name + ":cursor",
+                     "a step must start with idx = 0 and pos = [base +] bkt_size[0]; the constructor leaves idx = %s, pos = %s"
+                     % (fmt_lin(L.idx), fmt_lin(L.pos)), ctor.loc)
+        return
+    if not info.shadow:
+        ck.ok("STEP-BUCKET0", where(ctor), "idx=0, pos=base+bkt_size[0] (in place)")
+        return
+    good = [h for h in homes if h[1] == {} and h[2] == {"bkt_size[0]": 1}]
+    g = cfgm.CFG(ctor)
+    if good:
+        ps = [g.pos_deep(h[0]) for h in good]
+        if any(p is None for p in ps):
+            und(ctor, good[0][0], "copy_back() not found in the control-flow graph")
+        # `if (pos != 0) strptr.flip(0, pos).copy_back();` - skipping the copy of an empty bucket loses nothing
+        harmless = []
+        for h in good:
+            q, below = ctor.parent(h[0]), h[0]
+            while q is not None:
+                if q["k"] == "IfStmt" and len(kids(q)) > 1 and kids(q)[1] is below:
+                    c0 = kids(q)[0]
+                    cb = match.binop(c0, ("!=", ">", ">=", "<", "<=", "=="))
+                    x, y = (L.ev(cb[1]), L.ev(cb[2])) if cb else (L.ev(c0), {})
+                    cc = canon_cmp(cb[0] if cb else "!=", x, y) if x is not None and y is not None else None
+                    if cc is not None and not isinstance(cc, bool) and cc[2] and (
+                            (cc[0] == "eq" and cc[1] == {"bkt_size[0]": 1}) or (cc[0] == "lt" and cc[1] == {"bkt_size[0]": 1, 1: -1})):
+                        fe = g.false_edge_of(q["id"])
+                        if fe is not None:
+                            harmless.append(fe)
+                below, q = q, ctor.parent(q)
+        esc = g.path_avoiding((g.entry, -1), ps, blocked_edges=harmless)
+        if esc is None:
+            ck.ok("STEP-BUCKET0", where(ctor), "idx=0, pos=bkt_size[0], bucket 0 copied home on all paths")
+            return
+        # the copy exists but some path passes none: whether bucket 0 can be non-empty on that path is not decided here
+        und(ctor, good[0][0], "strptr.flip(0, pos).copy_back() is not passed on every path through the constructor (blocks %s) and the "
+            "tests on that path are not understood" % esc[:8])
+    elif homes:
+        found = "found " + ", ".join("flip(%s, %s).copy_back()" % (fmt_lin(h[1]), fmt_lin(h[2])) for h in homes)
+    else:
+        found = "the constructor never calls copy_back()"
+    ck.violation("STEP-BUCKET0", ctor.qname, ctor.name + ":home",
+                 "bucket 0 (strings that end here) is final: after the distribution it must be flipped and copied home on every path "
+                 "(strptr.flip(0, pos).copy_back()); %s" % found, ctor.loc)
+
+
+def affine(fn, e, depth=0):
+    """(variable, constant) of v, v + c, v - c, c + v, c (looking through locals that only name a value); None otherwise"""
+    e = strip_casts(e)
+    if e is None or depth > 6:
+        return None
+    c = const_int(e)
+    if c is not None:
+        return None, c
+    if e["k"] == "DeclRefExpr":
+        init = transparent_init(fn, e["ref"]["id"])
+        if init is not None and affine(fn, init, depth + 1) is not None:
+            return affine(fn, init, depth + 1)
+        return e["ref"]["id"], 0
+    b = match.binop(e, ("+", "-")) if e["k"] == "BinaryOperator" else None
+    if b:
+        x, y = affine(fn, b[1], depth + 1), affine(fn, b[2], depth + 1)
+        if x is None or y is None:
+            return None
+        if y[0] is None:
+            return x[0], x[1] + (y[1] if b[0] == "+" else -y[1])
+        if x[0] is None and b[0] == "+":
+            return y[0], x[1] + y[1]
+    return None
+
+
+def expr_cmp(fn, a, b, m):
+    """'same' | 'differs' (a difference both sides of which are understood: another literal, operator, function, member,
+    parameter) | 'unknown'.  Loop variables of twin loops are matched by consistent renaming (m)."""
+    a, b = resolve(fn, a), resolve(fn, b)
+    if a is None or b is None:
+        return "same" if a is b else "unknown"
+    fa, fb = affine(fn, a), affine(fn, b)
+    if fa is not None and fb is not None and fa[0] == fb[0] and (a["k"] != b["k"] or fa[0] is None):
+        return "same" if fa == fb else "differs"        # v + c against v + c'
+    if a["k"] != b["k"]:
+        ca, cb = const_int(a), const_int(b)
+        if ca is not None and cb is not None:
+            return "same" if ca == cb else "differs"
+        return "unknown"
+    if a["k"] == "DeclRefExpr":
+        ia, ib = a["ref"]["id"], b["ref"]["id"]
+        if ia == ib:
+            return "same"
+        ka, kb = a["ref"].get("kind"), b["ref"].get("kind")
+        if ka == "local" and kb == "local":
+            if m.get(("a", ia), ib) == ib and m.get(("b", ib), ia) == ia:
+                m[("a", ia)] = ib
+                m[("b", ib)] = ia
+                return "same"
+            return "unknown"
+        if ka == "param" and kb == "param":
+            return "differs"
+        return "unknown"
+    for key in ("op", "member", "val"):
+        if a.get(key) != b.get(key):
+            return "differs"
+    if "callee" in a and a["callee"]["qname"] != b.get("callee", {}).get("qname"):
+        return "differs"
+    ka, kb = kids(a), kids(b)
+    if len(ka) != len(kb):
+        return "unknown"
+    res = "same"
+    for x, y in zip(ka, kb):
+        r = expr_cmp(fn, x, y, m)
+        if r == "differs":
+            return r
+        if r == "unknown":
+            res = r
+    return res
+
+
+def value_used(fn, z):
+    """is the value of the expression z used (it is not a statement of its own / the increment part of a for)?"""
+    cur, p = z, fn.parent(z)
+    while p is not None and strip_casts(p) is strip_casts(cur) and p is not cur:
+        cur, p = p, fn.parent(p)
+    if p is None or p["k"] in ("CompoundStmt", "LabelStmt"):
+        return False
+    if p["k"] in ("ForStmt", "WhileStmt", "DoStmt", "IfStmt", "SwitchStmt"):
+        init, cond, inc, body = match.loop_parts(p) if p["k"] in ("ForStmt", "WhileStmt", "DoStmt") else (None, kids(p)[0], None, None)
+        return cond is cur
+    if p["k"] == "BinaryOperator" and p.get("op") == ",":
+        return kids(p)[1] is cur and value_used(fn, p)
+    return True
 
 
 def check_prefix(ck, ctor, info):
     """exclusive prefix sums are used with post-increment (out of place), inclusive ones with pre-decrement (in place);
     counting and distribution read the same key"""
-    # prefix recurrence: X[i] = X[i-1] + bkt_size[i-1 | i]
+    # prefix recurrence: X[i + c] = X[i + c - 1] + bkt_size[i + c - 1 | i + c]   (operands in either order)
     rec = None
     for z in ctor.nodes():
         asg = match.binop(z, ("=",)) if z["k"] in ("BinaryOperator", "CXXOperatorCallExpr") else None
@@ -444,37 +1361,58 @@ def check_prefix(ck, ctor, info):
         if not a or not b:
             continue
         arr = ref_of(lhs[0])
+        if arr is not None and ref_of(b[0]) == arr and match.this_field(a[0]) == "bkt_size":
+            a, b = b, a
         if arr is None or ref_of(a[0]) != arr or match.this_field(b[0]) != "bkt_size":
             continue
-        i = ref_of(lhs[1])
-        am = match.binop(a[1], ("-",))
-        if not (am and ref_of(am[1]) == i and const_int(am[2]) == 1):
-            continue
-        bi = strip_casts(b[1])
-        bm = match.binop(bi, ("-",))
-        if ref_of(bi) == i:
+        li, ai, bi = affine(ctor, lhs[1]), affine(ctor, a[1]), affine(ctor, b[1])
+        if not li or not ai or not bi or li[0] is None or ai[0] != li[0] or bi[0] != li[0]:
+            und(ctor, z, "prefix-sum recurrence with indices that are not understood: %s" % dtable.describe(z))
+        if ai[1] != li[1] - 1:
+            und(ctor, z, "prefix-sum recurrence does not add to the previous sum: %s" % dtable.describe(z))
+        if bi[1] == li[1]:
             rec = ("inclusive", arr, z)
-        elif bm and ref_of(bm[1]) == i and const_int(bm[2]) == 1:
+        elif bi[1] == li[1] - 1:
             rec = ("exclusive", arr, z)
         else:
-            rec = ("?" + dtable.describe(b[1]), arr, z)
+            und(ctor, z, "prefix-sum recurrence adds a bucket size that is neither its own nor the previous one: %s" % dtable.describe(z))
     if rec is None:
         raise ir.AnalysisBroken("%s: prefix-sum recurrence not found" % ctor.full)
     kind, arr, node = rec
-    # use: *(X[c]++) = ...  or  --X[c]
+    # every other operation on the sums must be understood
     uses = []
     for z in ctor.nodes():
+        if z is node:
+            continue
         u = match.unop(z, ("++", "--"))
         if u:
             ip = match.index_parts(u[1])
             if ip and ref_of(ip[0]) == arr:
+                if not value_used(ctor, z):
+                    und(ctor, z, "a prefix sum is stepped in a statement of its own; which value addresses the slot is not matched: %s"
+                        % dtable.describe(z))
                 uses.append((u[0], "post" if u[2] else "pre", z))
+            continue
+        b = match.binop(z) if z["k"] in ("BinaryOperator", "CompoundAssignOperator", "CXXOperatorCallExpr") else None
+        if b and b[0].endswith("=") and b[0] not in ("==", "!=", "<=", ">="):
+            ip = match.index_parts(b[1])
+            if ip and ref_of(ip[0]) == arr and b[0] in ("+=", "-=") and const_int(b[2]) == 1 and value_used(ctor, z):
+                uses.append(("++" if b[0] == "+=" else "--", "pre", z))     # (x -= 1) is --x
+                continue
+            if ip and ref_of(ip[0]) == arr and not (b[0] == "=" and affine(ctor, ip[1]) == (None, 0)):
+                und(ctor, z, "a prefix sum is changed in a way that is not understood: %s" % dtable.describe(z))
+        if "callee" in z and not z.get("op"):
+            for a in (kids(z)[1:] if z.get("member_call") else kids(z)):
+                if ref_of(a) == arr:
+                    und(ctor, z, "the prefix sums are handed to %s()" % z["callee"]["name"])
     want = ("++", "post") if kind == "exclusive" else ("--", "pre")
     if info.shadow != (kind == "exclusive"):
         ck.violation("PREFIX-SUM-USE", ctor.qname, ctor.name + ":kind", "%s prefix sums in an %s step" % (kind, "out-of-place" if info.shadow else "in-place"),
                      ctor.nloc(node))
         return
-    if not uses or any((u[0], u[1]) != want for u in uses):
+    if not uses:
+        und(ctor, node, "no use of the prefix sums as a cursor (++/--) found")
+    if any((u[0], u[1]) != want for u in uses):
         ck.violation("PREFIX-SUM-USE", ctor.qname, ctor.name + ":use",
                      "%s prefix sums must be consumed with %s%s; found %s — strings land one slot off their bucket"
                      % (kind, "post-" if want[1] == "post" else "pre-", want[0], [(u[1], u[0]) for u in uses]), ctor.nloc(node))
@@ -488,51 +1426,260 @@ def check_prefix(ck, ctor, info):
         base = ip[0]
         if match.this_field(base) == "bkt_size" or ref_of(base) == arr:
             par = ctor.parent(z)
-            if par is not None and match.unop(par, ("++", "--")):
+            stepped = par is not None and bool(match.unop(par, ("++", "--")))
+            pb = match.binop(par, ("+=", "-=")) if par is not None and par["k"] in ("CompoundAssignOperator", "CXXOperatorCallExpr") else None
+            if pb and strip_casts(pb[1]) is z and const_int(pb[2]) == 1:
+                stepped = True
+            if stepped:
                 keys.append((("count" if match.this_field(base) == "bkt_size" else "place"), strip_casts(ip[1])))
     cnt = [k for w_, k in keys if w_ == "count"]
     plc = [k for w_, k in keys if w_ == "place"]
     if not cnt or not plc:
         raise ir.AnalysisBroken("%s: counting/placing key not found" % ctor.full)
-
-    def keyform(e):
-        s = dtable.describe(e)
-        return s
     if info.shadow:
-        same = all(keyform(c) == keyform(p) for c in cnt for p in plc)
-    else:
-        # in place: the placing key is the cached character of the string in hand
-        same = True
-    if not same:
-        ck.violation("PREFIX-SUM-USE", ctor.qname, ctor.name + ":key",
-                     "strings are counted by %s but placed by %s" % (keyform(cnt[0]), keyform(plc[0])), ctor.nloc(node))
-    else:
-        ck.ok("PREFIX-SUM-USE", where(ctor), "%s sums, %s%s use, same key for counting and placing" % (kind, want[1], want[0]))
+        verdicts = [(expr_cmp(ctor, c, p, {}), c, p) for c in cnt for p in plc]
+        bad = [v for v in verdicts if v[0] == "differs"]
+        if bad:
+            ck.violation("PREFIX-SUM-USE", ctor.qname, ctor.name + ":key",
+                         "strings are counted by %s but placed by %s" % (dtable.describe(bad[0][1]), dtable.describe(bad[0][2])), ctor.nloc(node))
+            return
+        unk = [v for v in verdicts if v[0] == "unknown"]
+        if unk:
+            und(ctor, unk[0][2], "counting key %s and placing key %s could not be compared" % (dtable.describe(unk[0][1]), dtable.describe(unk[0][2])))
+    # in place: the placing key is the cached character of the string in hand
+    ck.ok("PREFIX-SUM-USE", where(ctor), "%s sums, %s%s use, same key for counting and placing" % (kind, want[1], want[0]))
 
 
 # ------------------------------------------------------------------ indices of the fixed-size bucket arrays
+_ARITH = {"+": lambda a, b: a + b, "-": lambda a, b: a - b, "*": lambda a, b: a * b, "&": lambda a, b: a & b, "|": lambda a, b: a | b,
+          "^": lambda a, b: a ^ b, "<<": lambda a, b: a << b if b < 64 else None, ">>": lambda a, b: a >> b,
+          "/": lambda a, b: a // b if b else None, "%": lambda a, b: a % b if b else None,
+          "<": lambda a, b: int(a < b), "<=": lambda a, b: int(a <= b), ">": lambda a, b: int(a > b), ">=": lambda a, b: int(a >= b),
+          "==": lambda a, b: int(a == b), "!=": lambda a, b: int(a != b)}
+
+
+def concrete_witness(tu, fn, g, target, n, budget=1500000):
+    """searches a path of the CFG on which the subscript `target` is evaluated with a concrete index >= n.  Integer locals that
+    are set from constants and from each other are followed with their values; every test that depends on anything else (data)
+    may go either way.  Returns (index, values of the locals) at such an access; "safe" if the search was exhaustive and the
+    index was a known number below n at every access; None if nothing could be established."""
+    def tracked(ty):
+        ty = (ty or "").replace("const ", "").strip()
+        return is_size_t(ty) or ty in ("unsigned int", "unsigned short", "unsigned char", "int", "long", "short", "bool")
+    names = {}
+    for z in fn.nodes():
+        if z["k"] == "VarDecl" and tracked(z.get("ty")):
+            names[z["did"]] = z.get("name")
+    # only what the index (or a flag that may guard the access) depends on is followed; everything else is data
+    rel = {y["ref"]["id"] for y in walk(kids(target)[1]) if y["k"] == "DeclRefExpr"}
+    rel |= {z["did"] for z in fn.nodes() if z["k"] == "VarDecl" and (z.get("ty") or "").replace("const ", "") == "bool"}
+    grew = True
+    while grew:
+        grew = False
+        for z in fn.nodes():
+            tgt, rhs = None, None
+            if z["k"] == "VarDecl" and kids(z):
+                tgt, rhs = z.get("did"), kids(z)[0]
+            elif z["k"] in ("BinaryOperator", "CompoundAssignOperator") and (z.get("op") or "").endswith("=") and \
+                    z.get("op") not in ("==", "!=", "<=", ">="):
+                tgt, rhs = ref_of(kids(z)[0]), kids(z)[1]
+            if tgt in rel and rhs is not None:
+                for y in walk(rhs):
+                    if y["k"] == "DeclRefExpr" and y["ref"]["id"] in names and y["ref"]["id"] not in rel:
+                        rel.add(y["ref"]["id"])
+                        grew = True
+    names = {d: nm for d, nm in names.items() if d in rel}
+
+    def cev(e, env):
+        if e is None:
+            return None
+        c = const_int(e)
+        if c is not None:
+            return c
+        k = e["k"]
+        if k in ("ImplicitCastExpr", "CStyleCastExpr", "CXXStaticCastExpr", "CXXFunctionalCastExpr", "ParenExpr"):
+            v = cev(kids(e)[0], env) if kids(e) else None
+            ty = (e.get("ty") or "").replace("const ", "")
+            if v is not None and ty in ("unsigned char", "unsigned short", "unsigned int"):
+                v &= {"unsigned char": 0xFF, "unsigned short": 0xFFFF, "unsigned int": 0xFFFFFFFF}[ty]
+            if v is not None and ty == "bool":
+                v = int(v != 0)
+            return v
+        if k == "DeclRefExpr":
+            return env.get(e["ref"]["id"])
+        if k == "UnaryOperator":
+            d = ref_of(kids(e)[0])
+            if e.get("op") in ("++", "--"):
+                v = env.get(d) if d is not None else None       # the element itself was executed before
+                if v is None:
+                    return None
+                return v if not e.get("postfix") else (v - 1 if e["op"] == "++" else v + 1)
+            v = cev(kids(e)[0], env)
+            if v is None:
+                return None
+            return {"!": int(not v), "-": -v, "+": v, "~": None}.get(e.get("op"))
+        if k == "CompoundAssignOperator" or (k == "BinaryOperator" and e.get("op") == "="):
+            d = ref_of(kids(e)[0])
+            return env.get(d) if d is not None else None
+        if k == "BinaryOperator":
+            op = e.get("op")
+            a, b = cev(kids(e)[0], env), cev(kids(e)[1], env)
+            if op == "&&":
+                return 0 if (a == 0 or b == 0) else (1 if a is not None and b is not None else None)
+            if op == "||":
+                return 1 if ((a is not None and a != 0) or (b is not None and b != 0)) else (0 if a == 0 and b == 0 else None)
+            if a is None or b is None or op not in _ARITH:
+                return None
+            v = _ARITH[op](a, b)
+            return None if (v is None or v < 0) else v
+        if k == "ConditionalOperator":
+            c0 = cev(kids(e)[0], env)
+            return None if c0 is None else cev(kids(e)[1 if c0 else 2], env)
+        return None
+
+    def transfer(node, env):
+        k = node["k"]
+        if k in ("DeclStmt", "VarDecl"):
+            for v in (kids(node) if k == "DeclStmt" else [node]):
+                if v is not None and v.get("did") in names:
+                    val = cev(kids(v)[0], env) if kids(v) and kids(v)[0] is not None else None
+                    env.pop(v["did"], None)
+                    if val is not None:
+                        env[v["did"]] = val
+            return
+        if k == "UnaryOperator" and node.get("op") in ("++", "--"):
+            d = ref_of(kids(node)[0])
+            if d in names:
+                v = env.pop(d, None)
+                if v is not None and (node["op"] == "++" or v > 0):
+                    env[d] = v + (1 if node["op"] == "++" else -1)
+            return
+        if k == "UnaryOperator" and node.get("op") == "&":
+            env.pop(ref_of(kids(node)[0]), None)
+            return
+        if k == "BinaryOperator" and node.get("op") == "=":
+            d = ref_of(kids(node)[0])
+            if d in names:
+                v = cev(kids(node)[1], env)
+                env.pop(d, None)
+                if v is not None:
+                    env[d] = v
+            return
+        if k == "CompoundAssignOperator":
+            d = ref_of(kids(node)[0])
+            if d in names:
+                a, b = env.pop(d, None), cev(kids(node)[1], env)
+                op = (node.get("op") or "")[:-1]
+                v = _ARITH[op](a, b) if a is not None and b is not None and op in _ARITH else None
+                if v is not None and v >= 0:
+                    env[d] = v
+            return
+        if "callee" in node and not node.get("op"):
+            callee = tu.by_did.get(node["callee"].get("did"))
+            args = kids(node)[1:] if node.get("member_call") else kids(node)
+            for i, a in enumerate(args):
+                d = ref_of(a) if a is not None and a["k"] == "DeclRefExpr" else None
+                if d in env:
+                    pty = callee.params[i]["ty"] if callee is not None and i < len(callee.params) else "&"
+                    if pty.rstrip().endswith("&") and not pty.startswith("const "):
+                        env.pop(d, None)
+
+    start = (g.entry, ())
+    work = [start]
+    seen = {start}
+    steps = 0
+    blind = False               # the access was reached with an index whose value is not followed
+    while work:
+        b, envt = work.pop()
+        env = dict(envt)
+        blk = g.blocks[b]
+        last = None
+        for e in blk.get("el", []):
+            if not isinstance(e, int):
+                continue
+            node = fn.byid(e)
+            if node is None:
+                continue
+            steps += 1
+            if node is target:
+                v = cev(kids(target)[1], env)
+                if v is None:
+                    blind = True
+                if v is not None and v >= n:
+                    inidx = {y["ref"]["id"] for y in walk(kids(target)[1]) if y["k"] == "DeclRefExpr"}
+                    return v, ", ".join("%s = %d" % (names[d], x) for d, x in sorted(env.items()) if d in names and d in inidx)
+            transfer(node, env)
+            last = node
+        if steps > budget:
+            return None
+        if blk.get("noreturn"):
+            continue
+        succ = blk.get("succ", [])
+        nxt = [s for s in succ if s is not None]
+        if len(succ) == 2 and last is not None and blk.get("termk") not in ("SwitchStmt",):
+            v = cev(last, env)
+            if v is not None:
+                nxt = [s for s in ([succ[0]] if v else [succ[1]]) if s is not None]
+        for s in nxt:
+            st = (s, tuple(sorted(env.items())))
+            if st not in seen:
+                seen.add(st)
+                work.append(st)
+    # every path was followed (tests on data both ways) and the index was a known in-range number at every access
+    return None if blind else "safe"
+
+
 def check_index_bounds(ck, tu):
     from engine import intervals
     for fn in [f for f in tu.functions if f.record and f.record.startswith(NS + "RadixStep_") and f.body is not None]:
-        bad, n_sites = intervals.fixed_array_findings(fn)
+        g = cfgm.CFG(fn)
+        bad, n_sites = intervals.fixed_array_findings(fn, g)
         if not n_sites:
             raise ir.AnalysisBroken("%s: no fixed-size bucket array subscripts found" % fn.full)
         seen = set()
+        undecided = None
+        safe = 0
         for z, n, r in bad:
             key = dtable.describe(z)
             if key in seen:
                 continue
             seen.add(key)
+            # the interval analysis could not bound the index: that alone is no evidence; look for an execution path
+            wit = concrete_witness(tu, fn, g, z, n)
+            if wit == "safe":
+                safe += 1       # the intervals were too coarse (a join or a flag); the path search bounds the index
+                continue
+            if wit is None:
+                undecided = undecided or (z, n, r, key)
+                continue
             ck.violation("BKT-INDEX-BOUND", fn.qname, "%s:%s" % (fn.name, key),
-                         "%s is evaluated with an index in [%s, %s]; the array has %d elements (one-past-the-end read when every remaining "
-                         "bucket is empty; the value then decides whether and where an LCP entry is written)" % (key, r[0], r[1], n), fn.nloc(z))
-        if not bad:
-            ck.ok("BKT-INDEX-BOUND", where(fn), "%d subscripts of fixed-size bucket arrays, all proven < size by interval analysis" % n_sites)
+                         "%s is evaluated with index %d on a path of the function (%s); the array has %d elements (one-past-the-end read when "
+                         "every remaining bucket is empty; the value then decides whether and where an LCP entry is written)"
+                         % (key, wit[0], wit[1], n), fn.nloc(z))
+        if undecided is not None and not [1 for v in ck.violations if v["rule"] == "BKT-INDEX-BOUND" and v["fn"] == fn.qname]:
+            z, n, r, key = undecided
+            und(fn, z, "interval analysis cannot bound the index of %s (in [%s, %s], the array has %d elements) and no concrete path "
+                "to an out-of-range access was found" % (key, r[0], r[1], n))
+        if not bad or (safe == len(seen) and undecided is None):
+            ck.ok("BKT-INDEX-BOUND", where(fn), "%d subscripts of fixed-size bucket arrays, all proven < size by interval analysis%s"
+                  % (n_sites, " / exhaustive path search" if safe else ""))
 
 
 # ------------------------------------------------------------------ fall-back chain
 def sorter_key(fn):
     return "%s/%d" % (fn.name, len(fn.params))
+
+
+def mentions(fn, e, did, depth=0):
+    """does the expression read the variable (directly or through locals that only name a value)?"""
+    for x in walk(e):
+        if x["k"] == "DeclRefExpr":
+            if x["ref"]["id"] == did:
+                return True
+            init = transparent_init(fn, x["ref"]["id"]) if depth < 6 else None
+            if init is not None and mentions(fn, init, did, depth + 1):
+                return True
+    return False
 
 
 def check_fallback(ck, tu):
@@ -542,7 +1689,9 @@ def check_fallback(ck, tu):
     for fn in sorters:
         k = sorter_key(fn)
         edges.setdefault(k, set())
-        pn = [p["name"] for p in fn.params]
+        adapter = len(fn.params) == 3 and fn.name != "multikey_quicksort" and \
+            not any(n["k"] == "VarDecl" and "std::stack<" in (n.get("ty") or "") for n in walk(fn.body))
+        di, mi = role_index(fn.params, "depth"), role_index(fn.params, "memory")
         for z in fn.nodes():
             if "callee" not in z or not z["callee"]["qname"].startswith(NS):
                 continue
@@ -552,28 +1701,46 @@ def check_fallback(ck, tu):
             ck2 = sorter_key(cal)
             edges[k].add(ck2)
             # adapters (strptr, depth, memory): early-return fall-backs forward the same roles
-            if len(fn.params) == 3 and pn == ["strptr", "depth", "memory"] and fn.name != "multikey_quicksort" and \
-                    not any(n["k"] == "VarDecl" and "std::stack<" in (n.get("ty") or "") for n in walk(fn.body)):
-                args = kids(z)
-                cpn = [p["name"] for p in cal.params]
-                if len(cal.params) == 3:
-                    cpn = ["strptr", "depth", "memory"]
-                par = fn.parent(z)
-                is_return = par is not None and par["k"] == "ReturnStmt"
-                a0 = strip_casts(args[0])
-                first_ok = ref_of(a0) == fn.params[0]["did"] or (
-                    "callee" in a0 and a0["callee"]["name"] == "add_shadow" and ref_of(kids(a0)[0]) == fn.params[0]["did"])
-                dep_ok = "depth" in cpn and ref_of(args[cpn.index("depth")]) == fn.params[1]["did"]
-                mem = args[cpn.index("memory")] if "memory" in cpn else None
-                mem_ok = mem is not None and any(x["k"] == "DeclRefExpr" and x["ref"]["id"] == fn.params[2]["did"] for x in walk(mem))
-                if is_return:
-                    mem_ok = mem is not None and ref_of(mem) == fn.params[2]["did"]
-                if not (first_ok and dep_ok and mem_ok):
-                    ck.violation("FALLBACK-FORWARD", fn.qname, "%s->%s" % (k, ck2),
-                                 "%s() must hand (strptr, depth, memory) on unchanged to %s(); found %s" % (fn.name, cal.name, dtable.describe(z)),
-                                 fn.nloc(z))
-                else:
-                    ck.ok("FALLBACK-FORWARD", where(fn, "-> " + ck2), "(strptr, depth, memory%s)" % ("" if is_return else " - own use"))
+            if not adapter:
+                continue
+            if di is None or mi is None or di == 0 or mi == 0:
+                und(fn, None, "roles (strptr, depth, memory) of the parameters not recognised")
+            cdi, cmi = role_index(cal.params, "depth"), role_index(cal.params, "memory")
+            args = kids(z)
+            if cdi is None or cmi is None or max(cdi, cmi) >= len(args):
+                und(fn, z, "depth/memory parameters of %s() not recognised" % cal.name)
+            L = Lin(fn, {fn.params[di]["did"]: "depth", fn.params[mi]["did"]: "memory"})
+            par = fn.parent(z)
+            is_return = par is not None and par["k"] == "ReturnStmt"
+            a0 = resolve(fn, args[0])
+            first_ok = ref_of(a0) == fn.params[0]["did"] or (
+                "callee" in a0 and a0["callee"]["name"] == "add_shadow" and ref_of(resolve(fn, kids(a0)[0])) == fn.params[0]["did"])
+            if not first_ok:
+                # understood and different: a narrower or re-flipped range of the own pointer, or another parameter
+                narrower = "callee" in a0 and a0.get("member_call") and a0["callee"]["name"] in ("sub", "flip", "copy_back")
+                other = a0["k"] == "DeclRefExpr" and a0["ref"].get("kind") == "param"
+                if not (narrower or other):
+                    und(fn, z, "string pointer handed to %s() not understood: %s" % (cal.name, dtable.describe(args[0])))
+            dep = L.ev(args[cdi])
+            if dep is None:
+                und(fn, z, "depth handed to %s() not understood: %s" % (cal.name, dtable.describe(args[cdi])))
+            dep_ok = dep == {"depth": 1}
+            mem = args[cmi]
+            mv = L.ev(mem)
+            if is_return:
+                if mv is None:
+                    und(fn, z, "memory limit handed to %s() not understood: %s" % (cal.name, dtable.describe(mem)))
+                mem_ok = mv == {"memory": 1}
+            else:
+                mem_ok = mentions(fn, mem, fn.params[mi]["did"])
+                if not mem_ok and mv is None:
+                    und(fn, z, "memory limit handed to %s() not understood: %s" % (cal.name, dtable.describe(mem)))
+            if not (first_ok and dep_ok and mem_ok):
+                ck.violation("FALLBACK-FORWARD", fn.qname, "%s->%s" % (k, ck2),
+                             "%s() must hand (strptr, depth, memory) on unchanged to %s(); found %s" % (fn.name, cal.name, dtable.describe(z)),
+                             fn.nloc(z))
+            else:
+                ck.ok("FALLBACK-FORWARD", where(fn, "-> " + ck2), "(strptr, depth, memory%s)" % ("" if is_return else " - own use"))
     # acyclic apart from the self recursion of multikey quicksort on strict sub-ranges
     order = []
     state = {}
@@ -597,77 +1764,247 @@ def check_fallback(ck, tu):
         if state.get(u) is None:
             cyc = cyc or dfs(u, [])
     if cyc:
+        # every edge is a call that was found in the code: the cycle is concrete
         ck.violation("FALLBACK-DAG", NS + cyc[-1].split("/")[0], "cycle:" + "->".join(cyc),
                      "the fall-back chain is cyclic (%s): with a tight memory limit the sorters call each other forever" % " -> ".join(cyc), "")
     else:
         sinks = [u for u in edges if not (edges[u] - {u})]
         ck.ok("FALLBACK-DAG", "sorter call graph", "%d sorters, acyclic; sinks: %s" % (len(edges), ", ".join(sorted(sinks))))
         if sorted(s.split("/")[0] for s in sinks) != ["insertion_sort"]:
+            # a sorter without outgoing calls: only a finding if all its calls are resolved (closed world)
+            for s in sinks:
+                for fn in sorters:
+                    if sorter_key(fn) == s and fn.name != "insertion_sort":
+                        for z in fn.nodes():
+                            if "callee" in z and not z.get("op") and z["callee"]["qname"].startswith("tlx::") and \
+                                    z["callee"].get("did") not in tu.by_did and not z.get("member_call"):
+                                und(fn, z, "%s() calls %s() whose body is not known: the fall-back chain cannot be closed"
+                                    % (fn.name, z["callee"]["name"]))
             ck.violation("FALLBACK-DAG", NS + "insertion_sort", "sinks", "the only limit-free sink must be insertion_sort; sinks are %s" % sinks, "")
 
 
 # ------------------------------------------------------------------ key packing
-def check_keypack(ck, tu):
-    for fn in [f for f in tu.functions if f.qname == NS + "StringSetBase::get_uint16" or f.qname == NS + "StringSetBase::get_uint8"]:
-        if "CharIterator" not in fn.params[1]["ty"] and "char *" not in fn.params[1]["ty"] and "unsigned char" not in fn.params[1]["ty"]:
-            if fn.params[1]["name"] != "i":
+def pack_table(fn):
+    """decision table of get_uintN(s, i): for every outcome of the successive end-of-string tests the returned key as
+    {byte index: shift}.  Yields (valuation, key, bytes read, end tests passed)."""
+    it = fn.params[1]["did"]
+
+    class St:
+        def __init__(self):
+            self.p = 0              # how far the iterator was advanced
+            self.vars = {}          # local -> {byte: shift}
+            self.done = 0
+            self.reads = []
+
+    def ev(st, e):
+        """{byte: shift} of an integer expression built from the characters read so far; None if not understood"""
+        e0 = e
+        e = strip_casts(e)
+        if e is None:
+            return None
+        while e["k"] in ("CXXFunctionalCastExpr", "CXXConstructExpr") and len(kids(e)) == 1:
+            e = strip_casts(kids(e)[0])
+        c = const_int(e)
+        if c is not None:
+            return {} if c == 0 else None
+        if e.get("id") in st_vals(st):
+            return st_vals(st)[e["id"]]
+        d = match.deref_of(e)
+        if d is not None:
+            j = pos_of(st, d)
+            if j is None:
+                return None
+            st.reads.append(j)
+            return {j: 0}
+        ip = match.index_parts(e)
+        if ip and ref_of(ip[0]) == it and const_int(ip[1]) is not None:
+            j = st.p + const_int(ip[1])
+            st.reads.append(j)
+            return {j: 0}
+        if e["k"] == "DeclRefExpr":
+            return dict(st.vars[e["ref"]["id"]]) if st.vars.get(e["ref"]["id"]) is not None else None
+        b = match.binop(e, ("<<", "|", "+", "^", "*")) if e["k"] == "BinaryOperator" else None
+        if b:
+            if b[0] in ("<<", "*"):
+                x, s = ev(st, b[1]), const_int(b[2])
+                if b[0] == "*":
+                    s = {1: 0, 256: 8, 65536: 16, 16777216: 24}.get(s)
+                if x is None or s is None:
+                    return None
+                return {j: sh + s for j, sh in x.items()}
+            x, y = ev(st, b[1]), ev(st, b[2])
+            if x is None or y is None or set(x) & set(y):
+                return None
+            out = dict(x)
+            out.update(y)
+            return out
+        return None
+
+    def st_vals(st):
+        if not hasattr(st, "vals"):
+            st.vals = {}
+        return st.vals
+
+    def pos_of(st, e):
+        """the position (relative to the start) an iterator expression points to"""
+        e = strip_casts(e)
+        if e.get("id") in st_vals(st) and isinstance(st_vals(st)[e["id"]], int):
+            return st_vals(st)[e["id"]]
+        if ref_of(e) == it:
+            return st.p
+        b = match.binop(e, ("+",))
+        if b and ref_of(b[1]) == it and const_int(b[2]) is not None:
+            return st.p + const_int(b[2])
+        return None
+
+    def effects(st, e):
+        for z in postorder(e):
+            u = match.unop(z, ("++",))
+            if u and ref_of(u[1]) == it:
+                st_vals(st)[z["id"]] = st.p if u[2] else st.p + 1       # the iterator value of i++ / ++i
+                st.p += 1
                 continue
-        if fn.params[1]["name"] != "i":
-            continue
+            b = match.binop(z) if z["k"] in ("BinaryOperator", "CompoundAssignOperator", "CXXOperatorCallExpr") else None
+            if b and b[0].endswith("=") and b[0] not in ("==", "!=", "<=", ">="):
+                d = ref_of(b[1])
+                if d == it:
+                    if b[0] == "+=" and const_int(b[2]) == 1:
+                        st.p += 1
+                        continue
+                    nb_ = match.binop(b[2], ("+",)) if b[0] == "=" else None
+                    if nb_ and ref_of(nb_[1]) == it and const_int(nb_[2]) == 1:
+                        st.p += 1
+                        continue
+                    und(fn, z, "the character iterator is moved in a way that is not understood: %s" % dtable.describe(z))
+                if d is not None:
+                    rhs = ev(st, b[2])
+                    if b[0] == "=":
+                        st.vars[d] = rhs
+                    elif b[0] in ("|=", "+=", "^="):
+                        cur = st.vars.get(d)
+                        st.vars[d] = None if (cur is None or rhs is None or set(cur) & set(rhs)) else {**cur, **rhs}
+                    elif b[0] == "<<=" and const_int(b[2]) is not None and st.vars.get(d) is not None:
+                        st.vars[d] = {j: sh + const_int(b[2]) for j, sh in st.vars[d].items()}
+                    else:
+                        st.vars[d] = None
+                continue
+            if "callee" in z and not z.get("op") and z["callee"]["name"] != "is_end":
+                for a in (kids(z)[1:] if z.get("member_call") else kids(z)):
+                    if ref_of(a) == it:
+                        und(fn, z, "the character iterator is handed to %s()" % z["callee"]["name"])
+
+    def state(run):
+        st = getattr(run, "_c03", None)
+        if st is None:
+            st = run._c03 = St()
+        while st.done < len(run.events):
+            ev_ = run.events[st.done]
+            st.done += 1
+            if ev_[0] == "decl":
+                v = ev_[1]
+                init = kids(v)[0] if kids(v) else None
+                if init is not None:
+                    effects(st, init)
+                    st.vars[v["did"]] = ev(st, init)
+            elif ev_[0] == "expr":
+                effects(st, ev_[1])
+            elif ev_[0] == "loop":
+                und(fn, ev_[1], "loop in the key packing")
+        return st
+
+    def atomize(n, run):
+        s = strip_casts(n)
+        if s is not None and "callee" in s and s["callee"]["name"] == "is_end":
+            st = state(run)
+            args = kids(s)[1:] if s.get("member_call") else kids(s)
+            its = [a for a in args if pos_of(st, a) is not None and (ref_of(a) == it or match.binop(a, ("+",)))]
+            if len(its) != 1:
+                und(fn, s, "end-of-string test on something that is not the character iterator: %s" % dtable.describe(s))
+            return "end@%d" % pos_of(st, its[0]), False
+        return None
+
+    counter = [-100]
+
+    def lower(n):
+        """return c ? a : b;  ->  if (c) return a; else return b;   (so that the tests inside are decided like the others)"""
+        if n is None or "ch" not in n:
+            return n
+        if n["k"] == "ReturnStmt" and kids(n) and strip_casts(kids(n)[0]) is not None and strip_casts(kids(n)[0])["k"] == "ConditionalOperator":
+            c0, a, b = kids(strip_casts(kids(n)[0]))
+            counter[0] -= 3
+            return {"k": "IfStmt", "id": counter[0], "l": n.get("l"), "ch": [
+                c0, lower({"k": "ReturnStmt", "id": counter[0] + 1, "l": n.get("l"), "ch": [a]}),
+                lower({"k": "ReturnStmt", "id": counter[0] + 2, "l": n.get("l"), "ch": [b]})]}
+        if n["k"] in ("CompoundStmt", "IfStmt"):
+            out = dict(n)
+            out["ch"] = [lower(c) for c in n["ch"]]
+            return out
+        return n
+
+    for lf in dtable.explore(lower(fn.body), atomize, fn):
+        st = state(lf["run"])
+        if lf["stop"][0] != "return" or lf["stop"][1][0] is None:
+            und(fn, None, "a path of the key packing does not return a value")
+        effects(st, lf["stop"][1][0])
+        key = ev(st, lf["stop"][1][0])
+        yield lf["val"], key, list(st.reads), lf
+
+
+def check_keypack(ck, tu):
+    for fn in [f for f in tu.functions if f.qname in (NS + "StringSetBase::get_uint16", NS + "StringSetBase::get_uint8")]:
+        if len(fn.params) != 2 or is_size_t(fn.params[1]["ty"]) or fn.body is None:
+            continue            # the (string, depth) overload forwards to the (string, iterator) one
         width = 2 if fn.name == "get_uint16" else 1
-        g = cfgm.CFG(fn)
-        it = fn.params[1]["did"]
-        # every dereference of the iterator is dominated by an is_end test of the same position that returns
-        derefs = [z for z in fn.nodes() if z["k"] == "UnaryOperator" and z.get("op") == "*" and ref_of(kids(z)[0]) == it]
-        ends = [z for z in fn.nodes() if "callee" in z and z["callee"]["name"] == "is_end"]
-        incs = [z for z in fn.nodes() if match.unop(z, ("++",)) and ref_of(match.unop(z, ("++",))[1]) == it]
-        shifts = []
-        for d in derefs:
-            par = fn.parent(d)
-            sh = None
-            while par is not None and par["k"] not in ("ReturnStmt", "CompoundStmt", "BinaryOperator", "CompoundAssignOperator"):
-                par = fn.parent(par)
-            if par is not None and par["k"] == "BinaryOperator" and par.get("op") == "<<":
-                sh = const_int(kids(par)[1])
-            elif par is not None and par["k"] == "ReturnStmt":
-                sh = 0
-            shifts.append(sh)
-            # conversion goes through an unsigned type
-            conv = fn.parent(d)
-            while conv is not None and conv["k"] in ("ImplicitCastExpr", "ParenExpr"):
-                conv = fn.parent(conv)
-            cty = conv.get("ty") if conv is not None else ""
-        want = [8 * (width - 1 - j) for j in range(width)]
         sig = "%s:%s" % (fn.name, label_set(fn))
-        if shifts != want or len(ends) != width or len(incs) != width - 1:
-            ck.violation("KEY-PACK-TABLE", fn.qname, sig, "byte j of the %d-byte key must be shifted by 8*(%d-1-j) after an end-of-string test; "
-                         "found shifts %s with %d end tests" % (width, width, shifts, len(ends)), fn.loc)
-            continue
         bad = None
-        for j, d in enumerate(derefs):
-            pd = g.pos_deep(d)
-            doms = [e for e in ends if g.dominates(g.pos_deep(e), pd)]
-            if len(doms) != j + 1:
-                bad = "character %d is read without its own end-of-string test" % j
-        # after the end all remaining bytes are zero: the early returns return the partial key
+        rows = 0
+        for val, key, reads, lf in pack_table(fn):
+            rows += 1
+            row = dtable.fmt_val(val)
+            # the characters before the first end test that succeeds are present
+            present = 0
+            while present < width and val.get("end@%d" % present) is False:
+                present += 1
+            for j in reads:
+                if val.get("end@%d" % j) is not False:
+                    bad = bad or "in the row {%s} character %d is read without its own end-of-string test" % (row, j)
+            if key is None:
+                und(fn, None, "row {%s} of the key packing: returned value not understood" % row)
+            if present < width and val.get("end@%d" % present) is not True and not bad:
+                # the row is fully evaluated: it returns without having looked whether character `present` exists
+                bad = "in the row {%s} the key %s is returned without an end-of-string test of character %d" % (row, fmt_key(key), present)
+            want = {j: 8 * (width - 1 - j) for j in range(present)}
+            if key != want and not bad:
+                bad = "byte j of the %d-byte key must be shifted by 8*(%d-1-j) after an end-of-string test; in the row {%s} the key is " \
+                      "built as %s instead of %s" % (width, width, row, fmt_key(key), fmt_key(want))
+        if not rows:
+            und(fn, None, "key packing has no path")
         if bad:
             ck.violation("KEY-PACK-TABLE", fn.qname, sig, bad, fn.loc)
         else:
-            ck.ok("KEY-PACK-TABLE", "%s [%s]" % (fn.name, label_set(fn)), "shifts %s, each byte behind its end test" % want)
+            ck.ok("KEY-PACK-TABLE", "%s [%s]" % (fn.name, label_set(fn)),
+                  "%d rows: shifts %s, each byte behind its end test" % (rows, [8 * (width - 1 - j) for j in range(width)]))
     # characters are unsigned bytes in every analysed string set
     seen = set()
     for fn in [f for f in tu.functions if f.qname == NS + "StringSetBase::get_char"]:
-        ret = fn.d.get("ret") or ""
         t = fn.rtargs[0] if fn.rtargs else ""
         if t in seen:
             continue
         seen.add(t)
-        r = B_ret_type(fn)
-        if "unsigned char" not in r and "uint8" not in r:
+        r = (fn.d.get("ret") or B_ret_type(fn) or "").replace("const ", "").replace("volatile ", "").strip()
+        if r in ("unsigned char", "std::uint8_t", "uint8_t", "unsigned short", "unsigned int", "char8_t"):
+            ck.ok("CHAR-UNSIGNED", "get_char [%s]" % label_set(fn), "character type %s" % r)
+        elif r in ("char", "signed char", "std::int8_t", "int8_t", "short", "int"):
             ck.violation("CHAR-UNSIGNED", fn.qname, "get_char:" + label_set(fn), "multikey quicksort compares get_char() values: for %s the character type "
                          "is %s, which orders bytes >= 0x80 before ASCII" % (label_set(fn), r), fn.loc)
         else:
-            ck.ok("CHAR-UNSIGNED", "get_char [%s]" % label_set(fn), "character type %s" % r)
+            und(fn, None, "character type `%s` of get_char() is neither a known unsigned nor a known signed type" % r)
+
+
+def fmt_key(k):
+    if k is None:
+        return "?"
+    return " | ".join("c%d << %d" % (j, s) for j, s in sorted(k.items())) or "0"
 
 
 def B_ret_type(fn):
@@ -685,21 +2022,28 @@ def label_set(fn):
 
 
 # ------------------------------------------------------------------ LCP slot 0 belongs to the caller
+def is_unsigned(ty):
+    ty = (ty or "").replace("const ", "").strip()
+    return "unsigned" in ty or ty in ("size_t", "std::size_t")
+
+
 def lower_bound(fn, e, guards, depth=0):
-    """a proven lower bound of an unsigned index expression, or None"""
+    """(lb, free) for an unsigned index expression: lb is a sound lower bound; free says that lb is what the expression evaluates
+    to when every unsigned quantity in it that is not looked through is at its least value (0, or its guard), i.e. nothing
+    in the expression was skipped.  None if the expression contains something that is not understood."""
     e = strip_casts(e)
+    if e is None or depth > 8:
+        return None
     c = const_int(e)
     if c is not None:
-        return c
-    if depth > 4:
-        return 0
+        return c, True
     if e["k"] == "ParenExpr":
         return lower_bound(fn, kids(e)[0], guards, depth)
     if e["k"] == "BinaryOperator" and e.get("op") == "+":
         a, b = lower_bound(fn, kids(e)[0], guards, depth + 1), lower_bound(fn, kids(e)[1], guards, depth + 1)
         if a is None or b is None:
             return None
-        return a + b
+        return a[0] + b[0], a[1] and b[1]
     if e["k"] == "BinaryOperator" and e.get("op") == "-":
         # p - q with p initialised from the same expression as q
         l, r = strip_casts(kids(e)[0]), strip_casts(kids(e)[1])
@@ -707,19 +2051,62 @@ def lower_bound(fn, e, guards, depth=0):
         if d is not None:
             for n in walk(fn.body):
                 if n["k"] == "VarDecl" and n.get("did") == d and kids(n) and match.same_expr(kids(n)[0], r):
-                    return 0
+                    return 0, True
         return None
     d = ref_of(e)
     if d is not None:
         if d in guards:
-            return guards[d]
-        ty = e.get("ty") or ""
-        if "unsigned" in ty or "size_t" in ty:
-            return 0
-        return None
-    if "unsigned" in (e.get("ty") or ""):
-        return 0
+            return guards[d], True
+        init = transparent_init(fn, d)
+        if init is not None:
+            r = lower_bound(fn, init, guards, depth + 1)
+            if r is not None:
+                return r
+        if not is_unsigned(e.get("ty")):
+            return None
+        stepwise = any((match.binop(w) and match.binop(w)[0] != "=") or match.unop(w, ("++", "--")) for w in writes_of(fn, d))
+        return 0, not stepwise      # a counter that is built up step by step is >= 0, but 0 need not be what it holds here
+    if e["k"] == "MemberExpr" and is_unsigned(e.get("ty")):
+        return 0, True              # a field such as rs.pos / this->pos
     return None
+
+
+def fill_loop_parts(fn, loop):
+    """(counter decl id, start expression, set_lcp call) of a loop whose body is one set_lcp(counter, v) and that counts the
+    counter up; None if the loop is something else; Undecidable if it writes LCPs at a counter in another form"""
+    if loop["k"] not in ("ForStmt", "WhileStmt"):
+        return None
+    init, cond, inc, body = match.loop_parts(loop)
+    stmts = [x for x in (kids(body) if body is not None and body["k"] == "CompoundStmt" else [body]) if x is not None]
+    calls = [strip_casts(x) for x in stmts if "callee" in (strip_casts(x) or {}) and strip_casts(x)["callee"]["name"] == "set_lcp"]
+    if len(calls) != 1:
+        return None
+    call = calls[0]
+    var = ref_of(kids(call)[1])
+    rest = [x for x in stmts if strip_casts(x) is not call]
+    if var is None and len(rest) <= 1:
+        und(fn, loop, "a loop fills LCPs at %s, which is not its plain counter" % dtable.describe(kids(call)[1]))
+    ups = [x for x in rest + ([inc] if inc is not None else []) if
+           (match.unop(x, ("++",)) and ref_of(match.unop(x, ("++",))[1]) == var) or
+           (match.binop(x, ("+=",)) and ref_of(match.binop(x, ("+=",))[1]) == var and const_int(match.binop(x, ("+=",))[2]) == 1)]
+    if var is None or len(ups) != 1 or len(rest) != (0 if inc is not None and ups[0] is inc else 1):
+        return None
+    ivars = [x for x in walk(init) if x["k"] == "VarDecl"] if init is not None else []
+    if ivars:
+        if ivars[0].get("did") != var or not kids(ivars[0]):
+            return None
+        return var, kids(ivars[0])[0], call
+    if init is not None:
+        b = match.binop(init, ("=",))
+        if not b or ref_of(b[1]) != var:
+            return None
+        return var, b[2], call
+    # while loop: the counter keeps the value of its declaration if nothing writes it before the loop
+    d = decl_of(fn, var)
+    other = [w for w in writes_of(fn, var) if not any(y is w for y in walk(loop))]
+    if d is None or not kids(d) or other:
+        und(fn, loop, "LCP fill loop whose start value is not understood")
+    return var, kids(d)[0], call
 
 
 def check_lcp_slot0(ck, tu):
@@ -728,30 +2115,22 @@ def check_lcp_slot0(ck, tu):
         if not (fn.name.startswith("radixsort_") or fn.name in INPLACE_NAMES or fn.kind == "ctor" or fn.name == "fill_lcp"):
             continue
         for loop in match.loops_in(fn.body):
-            if loop["k"] != "ForStmt":
+            parts = fill_loop_parts(fn, loop)
+            if parts is None:
                 continue
-            init, cond, inc, body = match.loop_parts(loop)
-            var = [x for x in walk(init) if x["k"] == "VarDecl"] if init else []
-            if not var or not kids(var[0]):
-                continue
-            body_s = body
-            while body_s is not None and body_s["k"] == "CompoundStmt" and len(kids(body_s)) == 1:
-                body_s = kids(body_s)[0]
-            body_s = strip_casts(body_s) if body_s is not None else None
-            if body_s is None or "callee" not in body_s or body_s["callee"]["name"] != "set_lcp":
-                continue
-            idx = kids(body_s)[1]
-            if ref_of(idx) != var[0]["did"]:
-                continue
+            var, start, call = parts
             n_loops += 1
-            lb = lower_bound(fn, kids(var[0])[0], {})
-            if lb is None or lb < 1:
-                ck.violation("LCP-SLOT0", fn.qname, "%s:fill-from:%s" % (fn.name, dtable.describe(kids(var[0])[0])),
+            lbf = lower_bound(fn, start, {})
+            if lbf is None or (lbf[0] < 1 and not lbf[1]):
+                und(fn, loop, "start index %s of an LCP fill loop is not understood" % dtable.describe(start))
+            lb = lbf[0]
+            if lb < 1:
+                ck.violation("LCP-SLOT0", fn.qname, "%s:fill-from:%s" % (fn.name, dtable.describe(start)),
                              "a run of equal strings gets its LCP filled from index %s on, which is not provably >= 1: slot 0 of the range a sorter "
                              "was given (and the slot of a run's first string) holds the LCP to the predecessor and belongs to the caller"
-                             % dtable.describe(kids(var[0])[0]), fn.nloc(loop))
+                             % dtable.describe(start), fn.nloc(loop))
             else:
-                ck.ok("LCP-SLOT0", where(fn, "fill from " + dtable.describe(kids(var[0])[0])), "lower bound %d" % lb)
+                ck.ok("LCP-SLOT0", where(fn, "fill from " + dtable.describe(start)), "lower bound %d" % lb)
         # single writes guarded by `x > 0`
         for z in fn.nodes():
             if "callee" not in z or z["callee"]["name"] != "set_lcp" or not z.get("member_call"):
@@ -761,7 +2140,7 @@ def check_lcp_slot0(ck, tu):
             q = par
             guards = {}
             while q is not None:
-                if q["k"] in ("ForStmt", "WhileStmt"):
+                if q["k"] in ("ForStmt", "WhileStmt", "DoStmt"):
                     inloop = True
                 if q["k"] == "IfStmt":
                     c = kids(q)[0]
@@ -775,7 +2154,8 @@ def check_lcp_slot0(ck, tu):
                 q = fn.parent(q)
             if inloop:
                 continue
-            lb = lower_bound(fn, kids(z)[1], guards)
+            lbf = lower_bound(fn, kids(z)[1], guards)
+            lb = lbf[0] if lbf else None
             if lb is not None and lb >= 1:
                 ck.ok("LCP-SLOT0", where(fn, "write at " + dtable.describe(kids(z)[1])), "lower bound %d under its guard" % lb, nontrivial=False)
     return n_loops
@@ -790,58 +2170,140 @@ def conj(c):
     return [c]
 
 
-# ------------------------------------------------------------------ LCP insertion sort: general vs last iteration
 # ------------------------------------------------------------------ public entry points
+def expand(fn, e):
+    """the nodes of e, with locals that only name a value replaced by that value"""
+    for x in walk(e):
+        if x["k"] == "DeclRefExpr" and x["ref"].get("kind") == "local":
+            init = transparent_init(fn, x["ref"]["id"])
+            if init is not None:
+                yield from expand(fn, init)
+                continue
+        yield x
+
+
+def param_use(fn, e, pids):
+    """(set of parameters the expression is built from, understood?): understood means that apart from parameters the
+    expression only contains constants, operators, casts and calls (no local whose value is not visible)"""
+    used, ok = set(), True
+    for x in expand(fn, e):
+        if x["k"] == "DeclRefExpr":
+            if x["ref"]["id"] in pids:
+                used.add(x["ref"]["id"])
+            elif x["ref"].get("kind") in ("local", "param"):
+                ok = False
+    return used, ok
+
+
+def same_param(fn, e, did, pids, what, c):
+    """True: e is the parameter; False: e is understood and something else (another parameter, a constant); else Undecidable"""
+    r = resolve(fn, e)
+    if ref_of(r) == did:
+        return True
+    if const_int(r) is not None or r["k"] in ("NullPtr", "CXXNullPtrLiteralExpr", "GNUNullExpr") or ref_of(r) in pids:
+        return False
+    used, ok = param_use(fn, r, pids)
+    if ok and did not in used:
+        return False
+    und(fn, c, "%s handed on as %s: not understood" % (what, dtable.describe(e)))
+
+
 def check_entries(ck, tu):
+    targets = ("tlx::sort_strings", "tlx::sort_strings_lcp", NS + "radixsort_CE3")
     for fn in [f for f in tu.functions if f.qname in ("tlx::sort_strings", "tlx::sort_strings_lcp")]:
-        pn = [p["name"] for p in fn.params]
-        calls = [z for z in fn.nodes() if "callee" in z and z["callee"]["qname"] in ("tlx::sort_strings", "tlx::sort_strings_lcp", NS + "radixsort_CE3")]
+        calls = [z for z in fn.nodes() if "callee" in z and z["callee"]["qname"] in targets]
         sig = "%s(%s)" % (fn.name, ",".join(p["ty"].replace("std::", "")[:28] for p in fn.params))
+        lcp = fn.name == "sort_strings_lcp"
+        # roles of the parameters: the strings (first), [their number], [the lcp array], the memory limit (last)
+        pids = [p["did"] for p in fn.params]
+        rest = fn.params[1:-1]
+        p_size = [p["did"] for p in rest if is_size_t(p["ty"])]
+        p_lcp = [p["did"] for p in rest if "*" in p["ty"]]
+        if len(fn.params) < 2 or not is_size_t(fn.params[-1]["ty"]) or len(p_size) > 1 or len(p_lcp) != (1 if lcp else 0) or \
+                len(p_size) + len(p_lcp) != len(rest):
+            und(fn, None, "roles of the parameters of the entry point not recognised")
+        p_strings, p_mem = pids[0], pids[-1]
+        names = {p["did"]: p["name"] for p in fn.params}
         if len(calls) != 1:
-            ck.violation("ENTRY-FORWARD", fn.qname, sig, "an entry point must reach radixsort_CE3 or another overload exactly once", fn.loc)
+            other = [z for z in fn.nodes() if "callee" in z and not z.get("op") and z["callee"]["qname"].startswith("tlx::") and
+                     z["callee"]["qname"] not in targets and z["k"] not in ("CXXConstructExpr", "CXXTemporaryObjectExpr")]
+            if calls or other:
+                und(fn, (calls or other)[0], "entry point with %d sorter calls and %d other tlx calls: not understood" % (len(calls), len(other)))
+            # closed world: the body calls nothing of tlx at all
+            ck.violation("ENTRY-FORWARD", fn.qname, sig, "an entry point must reach radixsort_CE3 or another overload exactly once; it calls no sorter",
+                         fn.loc)
             continue
         c = calls[0]
         args = kids(c)
-        lcp = fn.name == "sort_strings_lcp"
         if c["callee"]["name"] == "radixsort_CE3":
-            depth0 = const_int(args[1]) == 0
-            mem = ref_of(args[2]) == fn.params[-1]["did"]
-            ptr = strip_casts(args[0])
+            if len(args) != 3 or not p_size:
+                und(fn, c, "radixsort_CE3 call of a shape that is not understood")
+            d = resolve(fn, args[1])
+            if const_int(d) is None and ref_of(d) not in pids:
+                und(fn, c, "depth handed to radixsort_CE3 not understood: %s" % dtable.describe(args[1]))
+            depth0 = const_int(d) == 0
+            mem = same_param(fn, args[2], p_mem, pids, "memory limit", c)
+            ptr = resolve(fn, args[0])
             pty = ptr.get("ty") or ""
+            if not ("StringPtr<" in pty or "StringLcpPtr<" in pty or "StringShadow" in pty):
+                und(fn, c, "type of the string pointer handed to radixsort_CE3 not understood: %s" % pty[:80])
             kind_ok = ("StringLcpPtr<" in pty) == lcp and "Shadow" not in pty
             # the set is [strings, strings + size)
-            refs = [x["ref"]["name"] for x in walk(ptr) if x["k"] == "DeclRefExpr"]
-            plus = [x for x in walk(ptr) if x["k"] == "BinaryOperator" and x.get("op") == "+" and
-                    {ir.ref_name(kids(x)[0]), ir.ref_name(kids(x)[1])} == {"strings", "size"}]
-            lcp_ok = (not lcp) or "lcp" in refs
-            unsigned_ok = "unsigned char" in pty or "StdStringSet" in pty
-            if not (depth0 and mem and kind_ok and plus and lcp_ok and unsigned_ok):
+            sets = [x for x in expand(fn, ptr) if x["k"] in ("CXXConstructExpr", "CXXTemporaryObjectExpr", "CXXFunctionalCastExpr") and
+                    "StringSet" in (x.get("ty") or "") and "Ptr<" not in (x.get("ty") or "") and len(kids(x)) == 2]
+            if len(sets) != 1:
+                und(fn, c, "construction of the string set not found in %s" % dtable.describe(ptr)[:160])
+            sb, se = resolve(fn, kids(sets[0])[0]), resolve(fn, kids(sets[0])[1])
+            eb = match.binop(se, ("+",))
+            range_ok = ref_of(sb) == p_strings and bool(eb) and \
+                {ref_of(resolve(fn, eb[1])), ref_of(resolve(fn, eb[2]))} == {p_strings, p_size[0]}
+            if not range_ok:
+                for part in (sb, se):
+                    if not param_use(fn, part, pids)[1] or any("callee" in x and not x.get("op") for x in expand(fn, part)):
+                        und(fn, c, "bounds of the string set not understood: %s" % dtable.describe(sets[0])[:160])
+            used, ok = param_use(fn, ptr, pids)
+            lcp_ok = (not lcp) or p_lcp[0] in used
+            if not lcp_ok and not ok:
+                und(fn, c, "lcp array handed to radixsort_CE3 not understood: %s" % dtable.describe(ptr)[:160])
+            if "unsigned char" in pty or "StdStringSet" in pty:
+                unsigned_ok = True
+            elif "GenericCharStringSet<char>" in pty or "GenericCharStringSet<const char>" in pty:
+                unsigned_ok = False
+            else:
+                und(fn, c, "character type of the string set not recognised: %s" % pty[:120])
+            if not (depth0 and mem and kind_ok and range_ok and lcp_ok and unsigned_ok):
                 ck.violation("ENTRY-FORWARD", fn.qname, sig, "the entry point must sort [strings, strings+size) from depth 0 with the caller's memory limit%s "
                              "through an unsigned-character set: %s" % (" and lcp array" if lcp else "", dtable.describe(c)[:200]), fn.nloc(c))
             else:
                 ck.ok("ENTRY-FORWARD", sig, "radixsort_CE3(%s[strings, strings+size)%s, 0, memory)" % ("Lcp" if lcp else "", ", lcp" if lcp else ""))
             continue
-        # forwards to another overload: same name, roles in order, char -> unsigned char reinterpretation only
+        # forwards to another overload: same name, every role handed on, char -> unsigned char reinterpretation only
         if c["callee"]["name"] != fn.name:
             ck.violation("ENTRY-FORWARD", fn.qname, sig, "%s forwards to %s" % (fn.name, c["callee"]["name"]), fn.nloc(c))
             continue
-        used = []
-        for a in args:
-            for x in walk(a):
-                if x["k"] == "DeclRefExpr" and x["ref"]["id"] in [p["did"] for p in fn.params]:
-                    used.append(x["ref"]["name"])
-        want = [n for n in pn]
-        if "size" not in pn:
-            want = [pn[0], pn[0]] + pn[1:]        # strings.data(), strings.size()
-        a0 = strip_casts(args[0])
+        if len(args) != (4 if lcp else 3):
+            und(fn, c, "forwarding call with %d arguments" % len(args))
+        good = True
+        u0, ok0 = param_use(fn, args[0], pids)
+        u1, ok1 = param_use(fn, args[1], pids)
+        if not ok0 or not ok1:
+            und(fn, c, "strings/size handed on in a form that is not understood: %s" % dtable.describe(c)[:160])
+        good = good and u0 == {p_strings}
+        if p_size:
+            good = good and same_param(fn, args[1], p_size[0], pids, "number of strings", c)
+        else:
+            good = good and u1 == {p_strings}       # strings.data(), strings.size()
+        if lcp:
+            good = good and same_param(fn, args[2], p_lcp[0], pids, "lcp array", c)
+        good = good and same_param(fn, args[-1], p_mem, pids, "memory limit", c)
         cast_ok = True
-        for x in walk(args[0]):
+        for x in expand(fn, args[0]):
             if x["k"] == "CXXReinterpretCastExpr":
                 cast_ok = "unsigned char" in (x.get("ty") or "") and ("const" in (x.get("ty") or "")) == ("const" in fn.params[0]["ty"])
-        if used != want or not cast_ok:
+        if not good or not cast_ok:
             ck.violation("ENTRY-FORWARD", fn.qname, sig, "the overload does not hand its arguments on in order (%s)" % dtable.describe(c)[:160], fn.nloc(c))
         else:
-            ck.ok("ENTRY-FORWARD", sig, "-> %s(%s)" % (fn.name, ", ".join(used)), nontrivial=False)
+            ck.ok("ENTRY-FORWARD", sig, "-> %s(%s)" % (fn.name, ", ".join(names[u] for u in pids)), nontrivial=False)
 
 
 # ------------------------------------------------------------------ driver
@@ -856,15 +2318,12 @@ def run(ck):
         "ones by pre-decrement with the counting key (PREFIX-SUM-USE); memory-limit fall-backs forward (strptr, depth, memory) and form a DAG ending in "
         "insertion_sort (FALLBACK-FORWARD/DAG); key packing shifts and end tests (KEY-PACK-TABLE), unsigned characters (CHAR-UNSIGNED); fill loops "
         "over runs of equal strings never write LCP slot 0 of their range (LCP-SLOT0); "
-        "all 20 public overloads reach radixsort_CE3 at depth 0 with their own arguments (ENTRY-FORWARD).")
+        "all 20 public overloads reach radixsort_CE3 at depth 0 with their own arguments (ENTRY-FORWARD). "
+        "Violations are reported on evaluated evidence only (linear forms of offsets and depths, fully classified paths of the bucket dispatch, rows "
+        "of the key-packing table, a concrete out-of-range index on a CFG path); shapes that are not understood give `cannot decide`.")
     tu = ir.extract("witness/C03_sort_strings.cpp")
-    check_loops(ck, tu)
-    check_steps(ck, tu)
-    check_index_bounds(ck, tu)
-    check_fallback(ck, tu)
-    check_keypack(ck, tu)
-    check_lcp_slot0(ck, tu)
-    check_entries(ck, tu)
+    for rule_group in (check_loops, check_steps, check_index_bounds, check_fallback, check_keypack, check_lcp_slot0, check_entries):
+        ck.guarded(lambda rule_group=rule_group: rule_group(ck, tu))
     ck.floor("BUCKET-RANGE", 50)
     ck.floor("BUCKET-DISPOSED", 150)
     ck.floor("HOME-BEFORE-INPLACE", 90)
